@@ -155,39 +155,29 @@ Proof.
   replace (0 <? 2 + (len body + 2)) with true by lia. f_equal; f_equal; lia.
 Qed.
 
-(* --- class: identifiers, custom properties, functions, at-keywords, hashes (no escapes) ------------------------ *)
-Inductive ident_text : list Z -> Prop :=
-| IT_plain c rest : ident_start c = true -> all_b ident_char rest -> ident_text (c :: rest)
-| IT_dash c rest : ident_start c = true -> all_b ident_char rest -> ident_text (45 :: c :: rest).
-Inductive custom_text : list Z -> Prop :=
-| IT_custom rest : all_b ident_char rest -> custom_text (45 :: 45 :: rest).
-
-(* the follower of a name: not a name byte and not a backslash *)
-Definition name_follow (r : list Z) : Prop := ident_char (hd0 r) = false /\ hd0 r <> 92.
-
-Lemma ident_loop_run a r : all_b ident_char a -> name_follow r ->
-  ident_loop (a ++ r ++ [0]) 0 = Some (len a).
+(* a comment that is not closed before the end of the input *)
+Lemma comment_loop_eof body : no_close body = true -> comment_loop (body ++ [0]) = Some (len body).
 Proof.
-  intros Ha [Hr1 Hr2]. induction Ha as [|x a Hx Ha IH]; cbn [app].
-  - destruct r as [|c r]; cbn [app hd0] in *; rewrite ident_loop_0.
-    + reflexivity.
-    + rewrite Hr1. replace (c =? 92) with false by lia. reflexivity.
-  - rewrite ident_loop_0, Hx, IH. cbn [bump]. rewrite len_cons. reflexivity.
+  intros H. induction body as [|c t IH]; cbn [app].
+  - reflexivity.
+  - rewrite comment_loop_cons, eofb_cons_sent, andb_false_r.
+    cbn [no_close] in H. apply andb_true_iff in H. destruct H as [H1 H2]. specialize (IH H2).
+    destruct (c =? 42) eqn:E.
+    + rewrite peekz_sent_0. cbn [option_bind]. destruct t as [|c1 t]; cbn [hd0 app] in *.
+      * change (0 =? 47) with false. cbv beta iota. rewrite IH. cbn [bump]. rewrite len_cons. f_equal; lia.
+      * replace (c1 =? 47) with false by (destruct (c1 =? 47); [discriminate H1|reflexivity]).
+        rewrite IH. cbn [bump]. rewrite !len_cons. f_equal; lia.
+    + rewrite IH. cbn [bump]. rewrite len_cons. f_equal; lia.
 Qed.
 
-Lemma ident_token_run t r : ident_text t \/ custom_text t -> name_follow r ->
-  consume_ident_token (t ++ r ++ [0]) = Some (len t).
+Lemma munch_comment_eof body : no_close body = true -> munch TComment (47 :: 42 :: body) [].
 Proof.
-  intros Ht Hr. unfold consume_ident_token, ident_tail.
-  destruct Ht as [Ht|Ht]; [destruct Ht as [c rest Hc Hrest|c rest Hc Hrest]|destruct Ht as [rest Hrest]]; cbn [app].
-  - rewrite peekz_0. cbn [option_bind]. replace (c =? 45) with false by (cls; lia).
-    rewrite skipz_0, peekz_0. cbn [option_bind]. rewrite Hc. cbn [tl].
-    rewrite (ident_loop_run _ _ Hrest Hr). cbn [option_bind]. rewrite len_cons. f_equal; lia.
-  - rewrite peekz_0, peekz_1, peekz_0. cbn [option_bind]. change (45 =? 45) with true. cbv beta iota.
-    replace (c =? 45) with false by (cls; lia). rewrite skipz_1, peekz_0. cbn [option_bind]. rewrite Hc. cbn [tl].
-    rewrite (ident_loop_run _ _ Hrest Hr). cbn [option_bind]. rewrite !len_cons. f_equal; lia.
-  - rewrite peekz_0, peekz_1, peekz_0. cbn [option_bind]. change (45 =? 45) with true. cbv beta iota.
-    rewrite skipz_2. rewrite (ident_loop_run _ _ Hrest Hr). cbn [option_bind]. rewrite !len_cons. f_equal; lia.
+  intros H. split; [|split; [reflexivity|discriminate]].
+  unfold css_scan. cbn [app]. rewrite peekz_0. cbn [option_bind]. repeat dec1.
+  unfold consume_comment. rewrite peekz_0, peekz_1, peekz_0. cbn [option_bind]. repeat dec1. rewrite skipz_2.
+  rewrite (comment_loop_eof body H). cbn [option_bind].
+  unfold pos_tok. rewrite !len_cons. pose proof (len_nonneg body).
+  replace (0 <? 2 + len body) with true by lia. f_equal; f_equal; lia.
 Qed.
 
 Lemma skipz_len_app {A} (t x : list A) : skipz (len t) (t ++ x) = x.
@@ -196,121 +186,346 @@ Proof. unfold skipz, len. rewrite Nat2Z.id. rewrite skipn_app, skipn_all, Nat.su
 Lemma firstz_len_app {A} (t x : list A) : firstz (len t) (t ++ x) = t.
 Proof. unfold firstz, len. rewrite Nat2Z.id. rewrite firstn_app, firstn_all, Nat.sub_diag. cbn. apply app_nil_r. Qed.
 
-Lemma ident_text_len t : ident_text t -> 0 < len t.
-Proof. intros [c rest _ _|c rest _ _]; lens; lia. Qed.
+(* --- escapes (CSS Syntax "escape" diagram) ------------------------------------------------------------------- *)
+(* An escape text e comes with a condition nb on the byte that follows it: a hex escape without its optional
+   terminating whitespace must not be followed by whitespace (which it would swallow) nor, if shorter than six
+   digits, by another hex digit. *)
+Definition any_next (c : Z) : bool := true.
+Definition not_ws_next (c : Z) : bool := negb (is_ws c).
+Definition not_hex_ws_next (c : Z) : bool := negb (is_hex c) && negb (is_ws c).
+Definition rune_need (c : Z) : Z := if c <? 224 then 2 else if c <? 240 then 3 else 4.
 
-Lemma identlike_ident_run t r : ident_text t -> name_follow r -> hd0 r <> 40 ->
+Inductive esc_text : list Z -> (Z -> bool) -> Prop :=
+| Esc_char c : is_hex c = false -> is_nl c = false -> c < 192 -> esc_text [92; c] any_next
+| Esc_rune c cont : 192 <= c -> len cont = rune_need c - 1 -> esc_text (92 :: c :: cont) any_next
+| Esc_hex_ws h w : all_b is_hex h -> 1 <= len h <= 6 -> is_ws w = true -> esc_text (92 :: h ++ [w]) any_next
+| Esc_hex6 h : all_b is_hex h -> len h = 6 -> esc_text (92 :: h) not_ws_next
+| Esc_hex h : all_b is_hex h -> 1 <= len h < 6 -> esc_text (92 :: h) not_hex_ws_next.
+
+Lemma esc_text_bs e nb : esc_text e nb -> exists e', e = 92 :: e' /\ 1 <= len e'.
+Proof.
+  intros [c _ _ _|c cont Hc Hl|h w _ Hl _|h _ Hl|h _ Hl]; eexists; (split; [reflexivity|]).
+  - lens; lia.
+  - lens; lia.
+  - rewrite len_app. change (len [w]) with 1. lia.
+  - lia.
+  - lia.
+Qed.
+
+Lemma hex_upto_run : forall n a X, all_b is_hex a -> len a <= Z.of_nat n ->
+  (len a < Z.of_nat n -> is_hex (hd0 X) = false) -> hex_upto n (a ++ X ++ [0]) = Some (len a).
+Proof.
+  induction n as [|n IH]; intros a X Ha Hl Hx.
+  - destruct a; [reflexivity|lens; lia].
+  - cbn [hex_upto]. unfold consume_hexdigit. destruct a as [|c a].
+    + cbn [app]. rewrite peekz_sent_0. cbn [option_bind]. rewrite Hx by (lens; lia). reflexivity.
+    + inversion Ha as [|? ? Hc Ha']; subst. cbn [app]. rewrite peekz_0. cbn [option_bind]. rewrite Hc.
+      cbn [Z.ltb Z.compare tl]. rewrite IH; [cbn [bump]; rewrite len_cons; reflexivity|exact Ha'|lens; lia|].
+      intros H. apply Hx. lens. lia.
+Qed.
+
+Lemma hex_not_nl c : is_hex c = true -> ((c =? 10) || (c =? 12)) = false /\ (c =? 13) = false /\ is_ws c = false.
+Proof. intros H. cls. lia. Qed.
+
+Lemma escape_run e nb r : esc_text e nb -> nb (hd0 r) = true -> consume_escape (e ++ r ++ [0]) = Some (len e).
+Proof.
+  intros He Hnb. unfold consume_escape.
+  destruct He as [c Hh Hn Hc|c cont Hc Hl|h w Hh Hl Hw|h Hh Hl|h Hh Hl]; cbn [app]; rewrite peekz_0; cbn [option_bind negb Z.eqb Pos.eqb tl].
+  - unfold consume_newline, consume_hexdigit. rewrite !peekz_0. cbn [option_bind].
+    replace ((c =? 10) || (c =? 12)) with false by (cls; lia). replace (c =? 13) with false by (cls; lia).
+    cbn [option_bind Z.ltb Z.compare]. rewrite Hh. cbn [Z.ltb Z.compare]. replace (192 <=? c) with false by lia.
+    rewrite eofb_cons_sent, andb_false_r. reflexivity.
+  - unfold consume_newline, consume_hexdigit. rewrite !peekz_0. cbn [option_bind].
+    replace ((c =? 10) || (c =? 12)) with false by lia. replace (c =? 13) with false by lia.
+    cbn [option_bind Z.ltb Z.compare]. replace (is_hex c) with false by (cls; lia). cbn [Z.ltb Z.compare].
+    replace (192 <=? c) with true by lia. rewrite rune_len_val. cbn [option_bind].
+    rewrite !len_app. change (len [0]) with 1. pose proof (len_nonneg r). unfold rune_need in Hl.
+    rewrite !len_cons. f_equal.
+    destruct (c <? 224) eqn:E1; destruct (c <? 240) eqn:E2;
+      replace (c <? 192) with false by lia; cbn [orb];
+      repeat match goal with |- context [?a <? ?b] => let v := fresh in destruct (a <? b) eqn:v; try lia end; cbn [orb]; lia.
+  - destruct h as [|h0 h]; [lens; lia|]. inversion Hh as [|? ? Hh0 Hh']; subst. cbn [app].
+    destruct (hex_not_nl h0 Hh0) as (Hn1 & Hn2 & _).
+    unfold consume_newline, consume_hexdigit. rewrite !peekz_0. cbn [option_bind]. rewrite Hn1, Hn2.
+    cbn [option_bind Z.ltb Z.compare]. rewrite Hh0. cbn [Z.ltb Z.compare tl].
+    rewrite <- app_assoc. cbn [app].
+    replace (h ++ w :: r ++ [0]) with (h ++ (w :: r) ++ [0]) by reflexivity.
+    rewrite (hex_upto_run 5 h (w :: r) Hh') by (try (intros _; cbn [hd0]; cls; lia); lens; lia).
+    cbn [option_bind]. rewrite skipz_len_app. unfold consume_whitespace. cbn [app]. rewrite peekz_0. cbn [option_bind]. rewrite Hw.
+    rewrite !len_cons, len_app. change (len [w]) with 1. f_equal. lia.
+  - destruct h as [|h0 h]; [lens; lia|]. inversion Hh as [|? ? Hh0 Hh']; subst. cbn [app].
+    destruct (hex_not_nl h0 Hh0) as (Hn1 & Hn2 & _).
+    unfold consume_newline, consume_hexdigit. rewrite !peekz_0. cbn [option_bind]. rewrite Hn1, Hn2.
+    cbn [option_bind Z.ltb Z.compare]. rewrite Hh0. cbn [Z.ltb Z.compare tl].
+    rewrite (hex_upto_run 5 h r Hh') by (lens; lia).
+    cbn [option_bind]. rewrite skipz_len_app. unfold consume_whitespace. rewrite peekz_sent_0. cbn [option_bind].
+    unfold not_ws_next in Hnb. replace (is_ws (hd0 r)) with false by (destruct (is_ws (hd0 r)); [discriminate|reflexivity]).
+    rewrite !len_cons. f_equal. lia.
+  - destruct h as [|h0 h]; [lens; lia|]. inversion Hh as [|? ? Hh0 Hh']; subst. cbn [app].
+    destruct (hex_not_nl h0 Hh0) as (Hn1 & Hn2 & _).
+    unfold not_hex_ws_next in Hnb. apply andb_true_iff in Hnb. destruct Hnb as [Hb1 Hb2].
+    apply negb_true_iff in Hb1. apply negb_true_iff in Hb2.
+    unfold consume_newline, consume_hexdigit. rewrite !peekz_0. cbn [option_bind]. rewrite Hn1, Hn2.
+    cbn [option_bind Z.ltb Z.compare]. rewrite Hh0. cbn [Z.ltb Z.compare tl].
+    rewrite (hex_upto_run 5 h r Hh') by (try (intros _; exact Hb1); lens; lia).
+    cbn [option_bind]. rewrite skipz_len_app. unfold consume_whitespace. rewrite peekz_sent_0. cbn [option_bind].
+    rewrite Hb2. rewrite !len_cons. f_equal. lia.
+Qed.
+
+Lemma escape_fail r : r = [] \/ is_nl (hd0 r) = true -> consume_escape (92 :: r ++ [0]) = Some 0.
+Proof.
+  intros Hf. unfold consume_escape. rewrite peekz_0. cbn [option_bind negb Z.eqb Pos.eqb tl].
+  destruct Hf as [->|Hnl]; [reflexivity|].
+  destruct r as [|x r]; [discriminate Hnl|]. cbn [hd0 app] in *.
+  destruct (consume_newline_ok (x :: r)) as (n & Hn & _). cbn [app] in Hn. rewrite Hn. cbn [option_bind].
+  rewrite (newline_pos _ _ _ Hn), Hnl. reflexivity.
+Qed.
+
+(* a backslash that starts no escape: before a line break or the end of the input *)
+Definition dead_bs (r : list Z) : Prop := hd0 r = 92 -> tl r = [] \/ is_nl (hd0 (tl r)) = true.
+
+Lemma dead_bs_step r : dead_bs r -> (hd0 r =? 92) = true -> consume_escape (r ++ [0]) = Some 0.
+Proof.
+  intros H E. destruct r as [|c r]; [discriminate E|]. cbn [hd0 tl] in *. assert (c = 92) by lia. subst c.
+  apply (escape_fail r). apply H. reflexivity.
+Qed.
+
+Lemma dead_bs_not r : hd0 r <> 92 -> dead_bs r.
+Proof. intros H E. congruence. Qed.
+
+(* --- class: identifiers, custom properties, functions, at-keywords, hashes -------------------------------------- *)
+(* a name body t followed by r: name bytes and escapes, every escape followed by a byte it tolerates *)
+Inductive nbody : list Z -> list Z -> Prop :=
+| NB_nil r : nbody [] r
+| NB_char c t r : ident_char c = true -> nbody t r -> nbody (c :: t) r
+| NB_esc e nb t r : esc_text e nb -> nb (hd0 (t ++ r)) = true -> nbody t r -> nbody (e ++ t) r.
+
+Lemma all_b_nbody a r : all_b ident_char a -> nbody a r.
+Proof. induction 1; constructor; assumption. Qed.
+
+(* the first item of a name: a name-start byte or an escape *)
+Inductive ident_core : list Z -> list Z -> Prop :=
+| IC_char c rest r : ident_start c = true -> nbody rest r -> ident_core (c :: rest) r
+| IC_esc e nb rest r : esc_text e nb -> nb (hd0 (rest ++ r)) = true -> nbody rest r -> ident_core (e ++ rest) r.
+Inductive ident_text : list Z -> list Z -> Prop :=
+| IT_core t r : ident_core t r -> ident_text t r
+| IT_dash t r : ident_core t r -> ident_text (45 :: t) r.
+Inductive custom_text : list Z -> list Z -> Prop :=
+| IT_custom rest r : nbody rest r -> custom_text (45 :: 45 :: rest) r.
+
+(* the follower of a name: not a name byte and not the backslash of an escape *)
+Definition name_follow (r : list Z) : Prop := ident_char (hd0 r) = false /\ dead_bs r.
+
+Lemma ident_loop_skipn : forall a l, ident_loop (a ++ l) (length a) =
+  match ident_loop l 0 with Some n => Some (len a + n) | None => None end.
+Proof.
+  induction a as [|x a IH]; intros l; cbn [app length].
+  - change (len (@nil Z)) with 0. destruct (ident_loop l 0); reflexivity.
+  - rewrite ident_loop_skip, IH. destruct (ident_loop l 0); cbn [bump]; [|reflexivity]. rewrite len_cons. f_equal; lia.
+Qed.
+
+Lemma ident_loop_run t r : nbody t r -> name_follow r -> ident_loop (t ++ r ++ [0]) 0 = Some (len t).
+Proof.
+  intros Ht [Hr1 Hr2]. induction Ht as [r|c t r Hc Ht IH|e nb t r He Hnb Ht IH].
+  - cbn [app]. destruct r as [|c r]; cbn [app hd0] in *; rewrite ident_loop_0.
+    + reflexivity.
+    + rewrite Hr1. destruct (c =? 92) eqn:E92; [|reflexivity].
+      pose proof (dead_bs_step (c :: r) Hr2 E92) as He. cbn [app] in He. rewrite He. reflexivity.
+  - cbn [app]. rewrite ident_loop_0, Hc, (IH Hr1 Hr2). cbn [bump]. rewrite len_cons. reflexivity.
+  - destruct (esc_text_bs e nb He) as (e' & -> & He').
+    pose proof (escape_run _ _ (t ++ r) He Hnb) as Hesc. rewrite <- !app_assoc in *. cbn [app] in *.
+    rewrite ident_loop_0. change (ident_char 92) with false. change (92 =? 92) with true. cbv beta iota.
+    rewrite Hesc. cbn [option_bind]. rewrite len_cons. replace (0 <? 1 + len e') with true by lia.
+    replace (Z.to_nat (1 + len e' - 1)) with (length e') by (unfold len; lia).
+    rewrite ident_loop_skipn, (IH Hr1 Hr2). cbn [bump]. rewrite !len_cons, len_app. f_equal; lia.
+Qed.
+
+Lemma ident_core_len t r : ident_core t r -> 0 < len t.
+Proof.
+  intros [c rest r0 _ _|e nb rest r0 He _ _]; [lens; lia|]. destruct (esc_text_bs _ _ He) as (e' & -> & Hl).
+  rewrite len_app, len_cons. pose proof (len_nonneg rest). lia.
+Qed.
+
+Lemma ident_text_len t r : ident_text t r -> 0 < len t.
+Proof. intros [t0 r0 H|t0 r0 H]; pose proof (ident_core_len _ _ H); lens; lia. Qed.
+
+(* consumeIdentToken after p bytes ('-' or nothing), on a name core *)
+Lemma ident_tail_core p pre t r : len pre = p -> ident_core t r -> name_follow r ->
+  ident_tail p false (pre ++ t ++ r ++ [0]) = Some (p + len t).
+Proof.
+  intros Hp Hc Hr. unfold ident_tail. rewrite <- Hp, skipz_len_app.
+  destruct Hc as [c rest r Hc Hrest|e nb rest r He Hnb Hrest].
+  - cbn [app]. rewrite peekz_0. cbn [option_bind]. rewrite Hc. cbn [tl].
+    rewrite (ident_loop_run _ _ Hrest Hr). cbn [option_bind]. rewrite len_cons. f_equal; lia.
+  - destruct (esc_text_bs e nb He) as (e' & Ee & He').
+    pose proof (escape_run _ _ (rest ++ r) He Hnb) as Hesc. rewrite <- !app_assoc in *.
+    rewrite Ee at 1. cbn [app]. rewrite peekz_0. cbn [option_bind]. change (ident_start 92) with false.
+    change (92 =? 92) with true. cbv beta iota. rewrite Hesc. cbn [option_bind].
+    replace (0 <? len e) with true by (rewrite Ee, len_cons; lia).
+    rewrite skipz_len_app, (ident_loop_run _ _ Hrest Hr). cbn [option_bind]. rewrite len_app. f_equal; lia.
+Qed.
+
+Lemma ident_core_hd t r : ident_core t r -> ident_start (hd0 t) = true \/ hd0 t = 92.
+Proof.
+  intros [c rest r0 Hc _|e nb rest r0 He _ _]; [left; exact Hc|right].
+  destruct (esc_text_bs _ _ He) as (e' & -> & _). reflexivity.
+Qed.
+
+Lemma nbody_hd t r : nbody t r -> t = [] \/ ident_char (hd0 t) = true \/ hd0 t = 92.
+Proof.
+  intros [r0|c t0 r0 Hc _|e nb t0 r0 He _ _]; [auto|right; left; exact Hc|right; right].
+  destruct (esc_text_bs _ _ He) as (e' & -> & _). reflexivity.
+Qed.
+
+Lemma ident_token_run t r : ident_text t r \/ custom_text t r -> name_follow r ->
+  consume_ident_token (t ++ r ++ [0]) = Some (len t).
+Proof.
+  intros Ht. unfold consume_ident_token.
+  destruct Ht as [[t0 r0 Hc|t0 r0 Hc]|[rest r0 Hrest]]; intros Hr.
+  - destruct (ident_core_hd _ _ Hc) as [Hh|Hh]; destruct t0 as [|c0 t0]; try (apply ident_core_len in Hc; lens; lia);
+      cbn [hd0 app] in *; rewrite peekz_0; cbn [option_bind]; replace (c0 =? 45) with false by (cls; lia);
+      apply (ident_tail_core 0 [] (c0 :: t0) r0 eq_refl Hc Hr).
+  - cbn [app]. rewrite peekz_0, peekz_1. cbn [option_bind]. change (45 =? 45) with true. cbv beta iota.
+    destruct t0 as [|c0 t0]; [apply ident_core_len in Hc; lens; lia|]. cbn [app]. rewrite peekz_0. cbn [option_bind].
+    replace (c0 =? 45) with false by (destruct (ident_core_hd _ _ Hc) as [Hh|Hh]; cbn [hd0] in Hh; cls; lia).
+    rewrite (len_cons 45). apply (ident_tail_core 1 [45] (c0 :: t0) r0 eq_refl Hc Hr).
+  - cbn [app]. rewrite peekz_0, peekz_1, peekz_0. cbn [option_bind]. change (45 =? 45) with true. cbv beta iota.
+    unfold ident_tail. rewrite skipz_2. rewrite (ident_loop_run _ _ Hrest Hr). cbn [option_bind]. rewrite !len_cons. f_equal; lia.
+Qed.
+
+Lemma identlike_ident_run t r : ident_text t r -> name_follow r -> hd0 r <> 40 ->
   consume_identlike (t ++ r ++ [0]) = Some (TIdent, len t).
 Proof.
   intros Ht Hr H40. unfold consume_identlike. rewrite (ident_token_run t r (or_introl Ht) Hr). cbn [option_bind].
-  pose proof (ident_text_len t Ht). replace (len t =? 0) with false by lia.
+  pose proof (ident_text_len t r Ht). replace (len t =? 0) with false by lia.
   rewrite skipz_len_app. rewrite peekz_sent_0. cbn [option_bind].
   replace (hd0 r =? 40) with false by lia. reflexivity.
 Qed.
 
-(* "u" / "U" directly followed by "+" would start a unicode range *)
+(* "u" / "U" directly followed by "+" and a hex digit or "?" would start a unicode range *)
 Definition u_follow (t r : list Z) : Prop :=
-  match t with [c] => (c =? 117) || (c =? 85) = true -> hd0 r <> 43 | _ => True end.
+  match t with
+  | [c] => (c =? 117) || (c =? 85) = true -> hd0 r = 43 -> is_hex (hd0 (tl r)) = false /\ hd0 (tl r) <> 63
+  | _ => True
+  end.
 
-Lemma munch_ident t r : ident_text t -> name_follow r -> hd0 r <> 40 -> u_follow t r -> munch TIdent t r.
+(* Next on a buffer that starts with a name (not "--"): everything before consumeIdentlike fails *)
+Lemma scan_via_identlike t x ty n : (exists r, ident_text t r) -> u_follow t x ->
+  consume_identlike (t ++ x ++ [0]) = Some (ty, n) -> is_err ty = false -> css_scan (t ++ x ++ [0]) = Some (ty, n).
 Proof.
-  intros Ht Hr H40 Hu. pose proof (identlike_ident_run t r Ht Hr H40) as Hil.
-  split; [|split; [reflexivity|destruct Ht; discriminate]].
-  destruct Ht as [c rest Hc Hrest|c rest Hc Hrest]; cbn [app] in *.
-  - unfold css_scan. rewrite peekz_0. cbn [option_bind].
-    destruct ((c =? 117) || (c =? 85)) eqn:Eu.
-    + repeat dec1. unfold consume_unicode_range. rewrite peekz_0, peekz_1. cbn [option_bind]. rewrite Eu. cbn [negb].
-      assert (Hp : exists c1, peekz (rest ++ r ++ [0]) 0 = Some c1 /\ c1 <> 43).
-      { destruct rest as [|c1 rest]; cbn [app].
-        - rewrite peekz_sent_0. eexists; split; [reflexivity|]. apply Hu. exact Eu.
-        - rewrite peekz_0. eexists; split; [reflexivity|]. inversion Hrest; subst. cls. lia. }
-      destruct Hp as (c1 & -> & Hc1). cbn [option_bind]. replace (c1 =? 43) with false by lia. cbn [negb].
-      cbn [option_bind Z.ltb Z.compare]. cbv beta iota. rewrite Hil. reflexivity.
-    + repeat dec1. rewrite numeric_nondigit by (cls; lia). cbn [option_bind fst is_err negb]. rewrite Hil. reflexivity.
-  - unfold css_scan. rewrite peekz_0. cbn [option_bind]. repeat dec1.
+  intros (r & Ht) Hu Hil Hty.
+  destruct Ht as [t0 r0 Hc|t0 r0 Hc].
+  - destruct (ident_core_hd _ _ Hc) as [Hh|Hh]; destruct t0 as [|c t0]; try (apply ident_core_len in Hc; lens; lia);
+      cbn [hd0 app] in *; unfold css_scan; rewrite peekz_0; cbn [option_bind].
+    + destruct ((c =? 117) || (c =? 85)) eqn:Eu.
+      * repeat dec1.
+        assert (Hur : consume_unicode_range (c :: t0 ++ x ++ [0]) = Some 0).
+        { unfold consume_unicode_range. rewrite peekz_0, peekz_1. cbn [option_bind]. rewrite Eu. cbn [negb].
+          destruct t0 as [|c1 t0]; cbn [app].
+          - rewrite peekz_sent_0. cbn [option_bind]. destruct (hd0 x =? 43) eqn:E43; [|reflexivity]. cbn [negb].
+            destruct x as [|x0 x]; [discriminate E43|]. cbn [hd0] in E43. assert (x0 = 43) by lia. subst x0.
+            destruct (Hu Eu eq_refl) as [Hhx Hqx]. cbn [tl hd0] in Hhx, Hqx. cbn [app]. rewrite skipz_2.
+            pose proof (scan_while_run is_hex [] x (Forall_nil _) Hhx eq_refl) as Hs1. cbn [app] in Hs1. rewrite Hs1.
+            cbn [option_bind]. change (len (@nil Z)) with 0. rewrite skipz_0.
+            unfold consume_byte. rewrite peekz_sent_0. cbn [option_bind].
+            destruct (hd0 x =? 45); cbn [Z.ltb Z.compare]; cbv beta iota; [reflexivity|].
+            assert (Hq' : is_qmark (hd0 x) = false) by (unfold is_qmark; lia).
+            pose proof (scan_while_run is_qmark [] x (Forall_nil _) Hq' eq_refl) as Hs2. cbn [app] in Hs2. rewrite Hs2.
+            reflexivity.
+          - rewrite peekz_0. cbn [option_bind].
+            assert (Hb : nbody (c1 :: t0) r0) by (inversion Hc as [? ? ? _ Hb|e nb rest ? He _ _ Ee]; [exact Hb|];
+              destruct (esc_text_bs _ _ He) as (e' & -> & _); cbn [app] in Ee; injection Ee as Ec _; cls; lia).
+            assert (c1 <> 43) by (destruct (nbody_hd _ _ Hb) as [?|[Hx|Hx]]; [discriminate|cbn [hd0] in Hx; cls; lia|cbn [hd0] in Hx; lia]).
+            replace (c1 =? 43) with false by lia. reflexivity. }
+        rewrite Hur.
+        cbn [option_bind Z.ltb Z.compare]. cbv beta iota. rewrite Hil. cbn [option_bind]. unfold or_delim. cbn [fst]. rewrite Hty. reflexivity.
+      * repeat dec1. rewrite numeric_nondigit by (cls; lia). cbn [option_bind fst is_err negb]. rewrite Hil.
+        cbn [option_bind]. unfold or_delim. cbn [fst]. rewrite Hty. reflexivity.
+    + subst c. repeat dec1. rewrite Hil. cbn [option_bind]. unfold or_delim. cbn [fst]. rewrite Hty. reflexivity.
+  - destruct t0 as [|c t0]; [apply ident_core_len in Hc; lens; lia|].
+    assert (Hc45 : c <> 45) by (destruct (ident_core_hd _ _ Hc) as [Hh|Hh]; cbn [hd0] in Hh; cls; lia).
+    cbn [app] in *. unfold css_scan. rewrite peekz_0. cbn [option_bind]. repeat dec1.
     unfold consume_cdc. rewrite peekz_0, peekz_1, peekz_0. cbn [option_bind]. repeat dec1.
     cbn [option_bind Z.ltb Z.compare]. cbv beta iota.
     unfold consume_custom_variable. rewrite peekz_1, peekz_0. cbn [option_bind]. repeat dec1.
-    cbn [option_bind Z.ltb Z.compare]. cbv beta iota. rewrite Hil. reflexivity.
+    cbn [option_bind Z.ltb Z.compare]. cbv beta iota. rewrite Hil. cbn [option_bind fst]. rewrite Hty. reflexivity.
 Qed.
 
-Lemma munch_custom t r : custom_text t -> name_follow r -> (t = [45; 45] -> hd0 r <> 62) ->
+Lemma munch_ident t r : ident_text t r -> name_follow r -> hd0 r <> 40 -> u_follow t r -> munch TIdent t r.
+Proof.
+  intros Ht Hr H40 Hu. pose proof (identlike_ident_run t r Ht Hr H40) as Hil.
+  split; [|split; [reflexivity|pose proof (ident_text_len _ _ Ht); intros ->; cbn in *; lia]].
+  apply scan_via_identlike; [eauto|exact Hu|exact Hil|reflexivity].
+Qed.
+
+Lemma munch_custom t r : custom_text t r -> name_follow r -> (t = [45; 45] -> hd0 r <> 62) ->
   munch TCustomPropertyName t r.
 Proof.
   intros Ht Hr H62. pose proof (ident_token_run t r (or_intror Ht) Hr) as Hit.
   split; [|split; [reflexivity|destruct Ht; discriminate]].
-  destruct Ht as [rest Hrest]. cbn [app] in *.
+  inversion Ht as [rest r0 Hrest]; subst. cbn [app] in *.
   unfold css_scan. rewrite peekz_0. cbn [option_bind]. repeat dec1.
   unfold consume_cdc. rewrite peekz_0, peekz_1, peekz_2, peekz_1, peekz_0. cbn [option_bind]. repeat dec1.
   assert (Hp : exists c2, peekz (rest ++ r ++ [0]) 0 = Some c2 /\ c2 <> 62).
   { destruct rest as [|c2 rest]; cbn [app].
     - rewrite peekz_sent_0. eexists; split; [reflexivity|]. apply H62. reflexivity.
-    - rewrite peekz_0. eexists; split; [reflexivity|]. inversion Hrest; subst. cls. lia. }
+    - rewrite peekz_0. eexists; split; [reflexivity|].
+      destruct (nbody_hd _ _ Hrest) as [?|[Hx|Hx]]; [discriminate|cbn [hd0] in Hx; cls; lia|cbn [hd0] in Hx; lia]. }
   destruct Hp as (c2 & -> & Hc2). cbn [option_bind]. replace (c2 =? 62) with false by lia.
   cbn [option_bind Z.ltb Z.compare]. cbv beta iota.
   unfold consume_custom_variable. rewrite peekz_1, peekz_0. cbn [option_bind]. repeat dec1. rewrite Hit.
   cbn [option_bind]. replace (0 <? len (45 :: 45 :: rest)) with true by (lens; lia). reflexivity.
 Qed.
 
-Lemma strip_backslash_name t : ident_text t -> strip_backslash t = t.
-Proof.
-  assert (Hall : forall a, all_b ident_char a -> strip_backslash a = a).
-  { induction 1 as [|x a Hx Ha IH]; [reflexivity|]. unfold strip_backslash in *. cbn [filter].
-    replace (x =? 92) with false by (cls; lia). cbn [negb]. rewrite IH. reflexivity. }
-  intros [c rest Hc Hrest|c rest Hc Hrest]; unfold strip_backslash in *; cbn [filter].
-  - replace (c =? 92) with false by (cls; lia). cbn [negb]. f_equal. apply Hall. exact Hrest.
-  - change (45 =? 92) with false. replace (c =? 92) with false by (cls; lia). cbn [negb]. do 2 f_equal. apply Hall. exact Hrest.
-Qed.
+Lemma name_follow_paren r : name_follow (40 :: r).
+Proof. split; [reflexivity|apply dead_bs_not; cbn; lia]. Qed.
 
-Lemma munch_function name r : ident_text name -> is_url_name name = false -> munch TFunction (name ++ [40]) r.
+Lemma munch_function name r : ident_text name (40 :: r) -> is_url_name name = false -> munch TFunction (name ++ [40]) r.
 Proof.
   intros Ht Hurl.
-  assert (Hf : name_follow (40 :: r)) by (split; [reflexivity|cbn; lia]).
-  pose proof (ident_token_run name (40 :: r) (or_introl Ht) Hf) as Hit.
-  pose proof (ident_text_len name Ht) as Hlen.
+  pose proof (ident_token_run name (40 :: r) (or_introl Ht) (name_follow_paren r)) as Hit.
+  pose proof (ident_text_len name _ Ht) as Hlen.
   assert (Hil : consume_identlike (name ++ (40 :: r) ++ [0]) = Some (TFunction, len name + 1)).
   { unfold consume_identlike. rewrite Hit. cbn [option_bind]. replace (len name =? 0) with false by lia.
     rewrite skipz_len_app. cbn [app]. rewrite peekz_0. cbn [option_bind]. change (negb (40 =? 40)) with false.
     cbv beta iota. rewrite firstz_len_app. rewrite Hurl. reflexivity. }
   split; [|split; [reflexivity|destruct name; discriminate]].
   rewrite len_app. change (len [40]) with 1. rewrite <- app_assoc. change ([40] ++ r ++ [0]) with ((40 :: r) ++ [0]).
-  destruct Ht as [c rest Hc Hrest|c rest Hc Hrest]; cbn [app] in *.
-  - unfold css_scan. rewrite peekz_0. cbn [option_bind].
-    destruct ((c =? 117) || (c =? 85)) eqn:Eu.
-    + repeat dec1. unfold consume_unicode_range. rewrite peekz_0, peekz_1. cbn [option_bind]. rewrite Eu. cbn [negb].
-      assert (Hp : exists c1, peekz (rest ++ 40 :: r ++ [0]) 0 = Some c1 /\ c1 <> 43).
-      { destruct rest as [|c1 rest]; cbn [app]; rewrite peekz_0; eexists; (split; [reflexivity|]); [lia|].
-        inversion Hrest; subst. cls. lia. }
-      destruct Hp as (c1 & -> & Hc1). cbn [option_bind]. replace (c1 =? 43) with false by lia. cbn [negb].
-      cbn [option_bind Z.ltb Z.compare]. cbv beta iota. rewrite Hil. reflexivity.
-    + repeat dec1. rewrite numeric_nondigit by (cls; lia). cbn [option_bind fst is_err negb]. rewrite Hil. reflexivity.
-  - unfold css_scan. rewrite peekz_0. cbn [option_bind]. repeat dec1.
-    unfold consume_cdc. rewrite peekz_0, peekz_1, peekz_0. cbn [option_bind]. repeat dec1.
-    cbn [option_bind Z.ltb Z.compare]. cbv beta iota.
-    unfold consume_custom_variable. rewrite peekz_1, peekz_0. cbn [option_bind]. repeat dec1.
-    cbn [option_bind Z.ltb Z.compare]. cbv beta iota. rewrite Hil. reflexivity.
+  apply scan_via_identlike; [eauto| |exact Hil|reflexivity].
+  destruct name as [|c [|c1 n]]; try exact I. intros _ H. cbn in H. lia.
 Qed.
 
-Lemma munch_at_keyword name r : ident_text name \/ custom_text name -> name_follow r ->
+Lemma munch_at_keyword name r : ident_text name r \/ custom_text name r -> name_follow r ->
   munch TAtKeyword (64 :: name) r.
 Proof.
   intros Ht Hr. pose proof (ident_token_run name r Ht Hr) as Hit.
-  assert (0 < len name) by (destruct Ht as [Ht|Ht]; [apply ident_text_len; exact Ht|destruct Ht; lens; lia]).
+  assert (0 < len name) by (destruct Ht as [Ht|Ht]; [eapply ident_text_len; exact Ht|destruct Ht; lens; lia]).
   split; [|split; [reflexivity|discriminate]].
   unfold css_scan. cbn [app]. rewrite peekz_0. cbn [option_bind]. repeat dec1.
   unfold consume_at_keyword. cbn [tl]. rewrite Hit. cbn [option_bind]. replace (0 <? len name) with true by lia.
   cbn [option_bind]. unfold pos_tok. rewrite len_cons. replace (0 <? 1 + len name) with true by lia. reflexivity.
 Qed.
 
-Lemma munch_hash body r : body <> [] -> all_b ident_char body -> name_follow r -> munch THash (35 :: body) r.
+Lemma munch_hash body r : body <> [] -> nbody body r -> name_follow r -> munch THash (35 :: body) r.
 Proof.
   intros Hne Hb Hr. split; [|split; [reflexivity|discriminate]].
-  destruct body as [|c body]; [congruence|]. inversion Hb as [|? ? Hc Hb']; subst.
+  pose proof (len_nonneg body) as Hlb.
   unfold css_scan. cbn [app]. rewrite peekz_0. cbn [option_bind]. repeat dec1.
-  unfold consume_hash. cbn [tl]. rewrite peekz_0. cbn [option_bind]. rewrite Hc.
-  rewrite (ident_loop_run _ _ Hb' Hr). cbn [option_bind]. unfold pos_tok. rewrite !len_cons. pose proof (len_nonneg body).
-  replace (0 <? 2 + len body) with true by lia. f_equal; f_equal; lia.
+  unfold consume_hash. cbn [tl].
+  destruct Hb as [r|c t r Hc Ht|e nb t r He Hnb Ht]; [congruence| |].
+  - cbn [app]. rewrite peekz_0. cbn [option_bind]. rewrite Hc. cbn [tl].
+    rewrite (ident_loop_run _ _ Ht Hr). cbn [option_bind]. unfold pos_tok. rewrite !len_cons. pose proof (len_nonneg t).
+    replace (0 <? 2 + len t) with true by lia. f_equal; f_equal; lia.
+  - destruct (esc_text_bs e nb He) as (e' & Ee & He').
+    pose proof (escape_run _ _ (t ++ r) He Hnb) as Hesc. rewrite <- !app_assoc in *.
+    rewrite Ee at 1. cbn [app]. rewrite peekz_0. cbn [option_bind]. change (ident_char 92) with false.
+    change (92 =? 92) with true. cbv beta iota. rewrite Hesc. cbn [option_bind].
+    replace (0 <? len e) with true by (rewrite Ee, len_cons; lia).
+    rewrite skipz_len_app, (ident_loop_run _ _ Ht Hr). cbn [option_bind]. unfold pos_tok.
+    rewrite len_cons, len_app. pose proof (len_nonneg t). pose proof (len_nonneg e).
+    replace (0 <? 1 + len e + len t) with true by lia. f_equal; f_equal; lia.
 Qed.
+
 
 (* --- class: number, percentage, dimension (with the "." and "e" back-off) ---------------------------------------- *)
 Definition sign_text (s : list Z) : Prop := s = [] \/ s = [43] \/ s = [45].
@@ -518,14 +733,22 @@ Proof.
   exists c1, (rest' ++ x). split; [reflexivity|exact Hc].
 Qed.
 
-(* nothing that could continue a number as a dimension *)
-Definition no_name_start (r : list Z) : Prop := ident_start (hd0 r) = false /\ hd0 r <> 45 /\ hd0 r <> 92.
+(* nothing that could continue a number as a dimension: no name start, no live escape, and a "-" only when no name
+   follows it ("1-2", "1- ") *)
+Definition no_dash_name (r : list Z) : Prop := ident_start (hd0 r) = false /\ hd0 r <> 45 /\ dead_bs r.
+Definition no_name_start (r : list Z) : Prop :=
+  ident_start (hd0 r) = false /\ dead_bs r /\ (hd0 r = 45 -> no_dash_name (tl r)).
 
 Lemma ident_token_fail r : no_name_start r -> consume_ident_token (r ++ [0]) = Some 0.
 Proof.
-  intros (H1 & H2 & H3). unfold consume_ident_token. rewrite peekz_sent_0. cbn [option_bind].
-  replace (hd0 r =? 45) with false by lia. unfold ident_tail. rewrite skipz_0, peekz_sent_0. cbn [option_bind].
-  rewrite H1. replace (hd0 r =? 92) with false by lia. reflexivity.
+  intros (H1 & H3 & H2). unfold consume_ident_token. rewrite peekz_sent_0. cbn [option_bind].
+  destruct (hd0 r =? 45) eqn:E45.
+  - destruct r as [|c r']; [discriminate E45|]. cbn [hd0 tl] in *. assert (c = 45) by lia. subst c.
+    destruct (H2 eq_refl) as (G1 & G2 & G3). cbn [app]. rewrite peekz_1, peekz_sent_0. cbn [option_bind].
+    replace (hd0 r' =? 45) with false by lia. unfold ident_tail. rewrite skipz_1, peekz_sent_0. cbn [option_bind].
+    rewrite G1. destruct (hd0 r' =? 92) eqn:E92; [rewrite (dead_bs_step r' G3 E92)|]; reflexivity.
+  - unfold ident_tail. rewrite skipz_0, peekz_sent_0. cbn [option_bind].
+    rewrite H1. destruct (hd0 r =? 92) eqn:E92; [rewrite (dead_bs_step r H3 E92)|]; reflexivity.
 Qed.
 
 Lemma num_text_nonempty sg ip fd ex : (ip <> [] \/ fd <> []) -> 0 < len (sg ++ ip ++ frac fd ++ ex).
@@ -574,10 +797,16 @@ Proof.
   rewrite Et in *. cbn [app] in *. apply scan_via_numeric; [apply num_start_app; exact Hh|exact Hnum|reflexivity].
 Qed.
 
+Lemma name_hd t r : ident_text t r \/ custom_text t r -> hd0 t = 45 \/ ident_start (hd0 t) = true \/ hd0 t = 92.
+Proof.
+  intros [[t0 r0 Hc|t0 r0 Hc]|[rest r0 _]]; [|left; reflexivity|left; reflexivity].
+  destruct (ident_core_hd _ _ Hc); auto.
+Qed.
+
 (* a dimension: the unit is a name that does not read as an exponent (num_follow on unit ++ r says so) *)
 Lemma munch_dimension sg ip fd ex unit r :
   sign_text sg -> all_b is_digit ip -> all_b is_digit fd -> (ip <> [] \/ fd <> []) -> exp_text ex ->
-  ident_text unit \/ custom_text unit -> num_follow (nonemptyb fd) (nonemptyb ex) (unit ++ r) -> name_follow r ->
+  ident_text unit r \/ custom_text unit r -> num_follow (nonemptyb fd) (nonemptyb ex) (unit ++ r) -> name_follow r ->
   munch TDimension ((sg ++ ip ++ frac fd ++ ex) ++ unit) r.
 Proof.
   intros Hsg Hip Hfd Hne Hex Hu Hfol Hr.
@@ -585,9 +814,9 @@ Proof.
   pose proof (num_text_nonempty sg ip fd ex Hne) as Hlen.
   destruct (num_head sg ip fd ex Hsg Hip Hfd Hne) as (c0 & rest & Et & Hh).
   pose proof (ident_token_run unit r Hu Hr) as Hit.
-  assert (Hul : 0 < len unit) by (destruct Hu as [Hu|Hu]; [apply ident_text_len; exact Hu|destruct Hu; lens; lia]).
+  assert (Hul : 0 < len unit) by (destruct Hu as [Hu|Hu]; [eapply ident_text_len; exact Hu|destruct Hu; lens; lia]).
   assert (Hu37 : hd0 (unit ++ r) <> 37).
-  { destruct Hu as [Hu|Hu]; destruct Hu; cbn [app hd0]; cls; lia. }
+  { destruct (name_hd _ _ Hu) as [Hx|[Hx|Hx]]; destruct unit as [|u0 unit]; try (lens; lia); cbn [app hd0] in *; cls; lia. }
   set (t := sg ++ ip ++ frac fd ++ ex) in *.
   split; [|split; [reflexivity|destruct t; discriminate]].
   rewrite len_app. rewrite <- app_assoc.
@@ -599,75 +828,679 @@ Proof.
   rewrite <- app_assoc in Hnum. rewrite Et in *. cbn [app] in *. apply scan_via_numeric; [apply num_start_app; exact Hh|exact Hnum|reflexivity].
 Qed.
 
-(* --- class: strings and bad strings (bodies without escapes) -------------------------------------------------- *)
+(* --- class: strings and bad strings ---------------------------------------------------------------------------- *)
 Definition str_byte (q c : Z) : bool := negb (c =? q) && negb (c =? 92) && negb (is_nl c).
 Definition is_quote (q : Z) : Prop := q = 34 \/ q = 39.
+
+(* a line break as consumeNewline reads it: \n, \f, \r\n, or \r not followed by \n *)
+Definition line_break (nlb y : list Z) : Prop :=
+  nlb = [10] \/ nlb = [12] \/ nlb = [13; 10] \/ (nlb = [13] /\ hd0 y <> 10).
+
+(* a string body t followed by r: plain bytes, escapes (with the follower they tolerate), and line continuations *)
+Inductive sbody (q : Z) : list Z -> list Z -> Prop :=
+| SB_nil r : sbody q [] r
+| SB_char c t r : str_byte q c = true -> sbody q t r -> sbody q (c :: t) r
+| SB_esc e nb t r : esc_text e nb -> nb (hd0 (t ++ r)) = true -> sbody q t r -> sbody q (e ++ t) r
+| SB_cont nlb t r : line_break nlb (t ++ r) -> sbody q t r -> sbody q (92 :: nlb ++ t) r.
+
+Lemma all_b_sbody q a r : all_b (str_byte q) a -> sbody q a r.
+Proof. induction 1; constructor; assumption. Qed.
 
 Lemma eofb_app_cons a c x : eofb (a ++ c :: x) = match a with [] => eofb (c :: x) | [_] => false | _ => false end.
 Proof. destruct a as [|a0 [|a1 a]]; reflexivity. Qed.
 
-Lemma string_loop_run q body c x : is_quote q -> all_b (str_byte q) body -> (c = q \/ is_nl c = true) ->
-  string_loop q (body ++ c :: x ++ [0]) 0 =
-    Some (if is_nl c then TBadString else TString, len body + 1).
+Definition shift2 {A} (n : Z) (o : option (A * Z)) : option (A * Z) :=
+  match o with Some (a, m) => Some (a, n + m) | None => None end.
+
+Lemma string_loop_skipn q : forall a l, string_loop q (a ++ l) (length a) = shift2 (len a) (string_loop q l 0).
 Proof.
-  intros Hq Hb Hc. induction Hb as [|y body Hy Hb IH]; cbn [app].
-  - rewrite string_loop_0. replace (eofb (c :: x ++ [0])) with false by (destruct x; reflexivity).
-    rewrite andb_false_r. destruct (is_nl c) eqn:En; [reflexivity|].
-    destruct Hc as [->|?]; [|congruence]. rewrite Z.eqb_refl. reflexivity.
-  - rewrite string_loop_0. replace (eofb (y :: body ++ c :: x ++ [0])) with false by (destruct body; reflexivity).
+  induction a as [|x a IH]; intros l; cbn [app length].
+  - change (len (@nil Z)) with 0. destruct (string_loop q l 0) as [[ty n]|]; reflexivity.
+  - rewrite string_loop_skip, IH. destruct (string_loop q l 0) as [[ty n]|]; cbn [bump2 shift2]; [|reflexivity].
+    rewrite len_cons. f_equal; f_equal; lia.
+Qed.
+
+Lemma line_break_run nlb y : line_break nlb y -> consume_newline (nlb ++ y ++ [0]) = Some (len nlb) /\ is_nl (hd0 nlb) = true.
+Proof.
+  intros [->|[->|[->|[-> Hy]]]]; (split; [|reflexivity]); unfold consume_newline; cbn [app]; rewrite peekz_0; cbn [option_bind];
+    try reflexivity.
+  - rewrite peekz_1, peekz_0. reflexivity.
+  - rewrite peekz_1, peekz_sent_0. cbn [option_bind Z.eqb Pos.eqb orb]. replace (hd0 y =? 10) with false by lia. reflexivity.
+Qed.
+
+(* the loop of consumeString walks over a body and continues at what follows it *)
+Lemma string_loop_body q body x : is_quote q -> sbody q body x ->
+  string_loop q (body ++ x ++ [0]) 0 = shift2 (len body) (string_loop q (x ++ [0]) 0).
+Proof.
+  intros Hq Hb. induction Hb as [x|y body x Hy Hb IH|e nb t x He Hnb Ht IH|nlb t x Hnl Ht IH].
+  - cbn [app]. change (len (@nil Z)) with 0. destruct (string_loop q (x ++ [0]) 0) as [[ty n]|]; reflexivity.
+  - cbn [app]. rewrite string_loop_0. rewrite app_assoc, eofb_cons_sent.
     rewrite andb_false_r. unfold str_byte in Hy. apply andb_true_iff in Hy. destruct Hy as [Hy Hy3].
     apply andb_true_iff in Hy. destruct Hy as [Hy1 Hy2].
     replace (is_nl y) with false by (destruct (is_nl y); [discriminate|reflexivity]).
     replace (y =? q) with false by (destruct (y =? q); [discriminate|reflexivity]).
     replace (y =? 92) with false by (destruct (y =? 92); [discriminate|reflexivity]).
-    rewrite IH. cbn [bump2]. rewrite len_cons. f_equal; f_equal; lia.
+    rewrite <- app_assoc, IH. destruct (string_loop q (x ++ [0]) 0) as [[ty n]|]; cbn [bump2 shift2]; [|reflexivity].
+    rewrite len_cons. f_equal; f_equal; lia.
+  - destruct (esc_text_bs e nb He) as (e' & -> & He').
+    pose proof (escape_run _ _ (t ++ x) He Hnb) as Hesc. rewrite <- !app_assoc in *. cbn [app] in *.
+    rewrite string_loop_0. change (92 =? 0) with false. change (is_nl 92) with false.
+    replace (92 =? q) with false by (destruct Hq; subst; reflexivity). change (92 =? 92) with true. cbv beta iota. cbn [andb].
+    cbv beta iota. rewrite Hesc. cbn [option_bind]. rewrite len_cons. replace (0 <? 1 + len e') with true by lia.
+    replace (Z.to_nat (1 + len e' - 1)) with (length e') by (unfold len; lia).
+    rewrite string_loop_skipn, IH. destruct (string_loop q (x ++ [0]) 0) as [[ty n]|]; cbn [bump2 shift2]; [|reflexivity].
+    rewrite !len_cons, len_app. f_equal; f_equal; lia.
+  - destruct (line_break_run nlb (t ++ x) Hnl) as [Hrun Hhd]. rewrite <- app_assoc in Hrun.
+    cbn [app]. rewrite <- !app_assoc. rewrite string_loop_0. change (92 =? 0) with false. change (is_nl 92) with false.
+    replace (92 =? q) with false by (destruct Hq; subst; reflexivity). change (92 =? 92) with true. cbn [andb]. cbv beta iota.
+    replace (nlb ++ t ++ x ++ [0]) with ((nlb ++ t ++ x) ++ [0]) by (rewrite <- !app_assoc; reflexivity).
+    rewrite escape_fail.
+    2:{ right. destruct Hnl as [->|[->|[->|[-> _]]]]; reflexivity. }
+    cbn [option_bind Z.ltb Z.compare]. cbv beta iota. rewrite <- !app_assoc. rewrite Hrun. cbn [option_bind].
+    replace (Z.to_nat (len nlb)) with (length nlb) by (unfold len; lia).
+    rewrite string_loop_skipn, IH. destruct (string_loop q (x ++ [0]) 0) as [[ty n]|]; cbn [bump2 shift2]; [|reflexivity].
+    rewrite !len_cons, len_app. f_equal; f_equal; lia.
 Qed.
 
-Lemma munch_string q body r : is_quote q -> all_b (str_byte q) body -> munch TString (q :: body ++ [q]) r.
+Lemma string_loop_run q body c x : is_quote q -> sbody q body (c :: x) -> (c = q \/ is_nl c = true) ->
+  string_loop q (body ++ c :: x ++ [0]) 0 =
+    Some (if is_nl c then TBadString else TString, len body + 1).
+Proof.
+  intros Hq Hb Hc. pose proof (string_loop_body q body (c :: x) Hq Hb) as H. cbn [app] in H. rewrite H.
+  rewrite string_loop_0, eofb_cons_sent, andb_false_r. destruct (is_nl c) eqn:En; [reflexivity|].
+  destruct Hc as [->|?]; [|congruence]. rewrite Z.eqb_refl. reflexivity.
+Qed.
+
+Lemma scan_quote q l : is_quote q -> css_scan (q :: l) = r <- consume_string (q :: l) ;; Some (or_delim r).
+Proof.
+  intros Hq. unfold css_scan. rewrite peekz_0. cbn [option_bind]. destruct Hq; subst; reflexivity.
+Qed.
+
+Lemma consume_string_run q body c x : is_quote q -> sbody q body (c :: x) -> (c = q \/ is_nl c = true) ->
+  consume_string (q :: body ++ c :: x ++ [0]) = Some (if is_nl c then TBadString else TString, len (q :: body ++ [c])).
+Proof.
+  intros Hq Hb Hc. unfold consume_string. rewrite peekz_0. cbn [option_bind tl].
+  rewrite (string_loop_run q body c x Hq Hb Hc). cbn [bump2]. rewrite !len_cons, len_app. change (len [c]) with 1.
+  f_equal; f_equal; lia.
+Qed.
+
+Lemma munch_string q body r : is_quote q -> sbody q body (q :: r) -> munch TString (q :: body ++ [q]) r.
 Proof.
   intros Hq Hb. split; [|split; [reflexivity|discriminate]].
-  unfold css_scan. cbn [app]. rewrite peekz_0. cbn [option_bind].
-  assert (Hqq : (q =? 34) || (q =? 39) = true) by (destruct Hq; subst; reflexivity).
-  replace (is_ws q) with false by (destruct Hq; subst; reflexivity).
-  repeat (match goal with |- context [if ?b then _ else _] =>
-            first [ constr_eq b ((q =? 34) || (q =? 39)); fail 1
-                  | replace b with false by (destruct Hq; subst; reflexivity) ] end).
-  rewrite Hqq. unfold consume_string. rewrite peekz_0. cbn [option_bind tl].
-  rewrite <- app_assoc. cbn [app].
-  rewrite (string_loop_run q body q r Hq Hb (or_introl eq_refl)).
-  replace (is_nl q) with false by (destruct Hq; subst; reflexivity). cbn [bump2 option_bind].
-  unfold or_delim. cbn [fst is_err]. rewrite !len_cons, len_app. change (len [q]) with 1. f_equal; f_equal; lia.
+  cbn [app]. rewrite <- app_assoc. cbn [app]. rewrite (scan_quote q _ Hq).
+  rewrite (consume_string_run q body q r Hq Hb (or_introl eq_refl)).
+  replace (is_nl q) with false by (destruct Hq; subst; reflexivity). reflexivity.
 Qed.
 
-Lemma munch_bad_string q body nl r : is_quote q -> all_b (str_byte q) body -> is_nl nl = true ->
+Lemma munch_bad_string q body nl r : is_quote q -> sbody q body (nl :: r) -> is_nl nl = true ->
   munch TBadString (q :: body ++ [nl]) r.
 Proof.
   intros Hq Hb Hnl. split; [|split; [reflexivity|discriminate]].
-  unfold css_scan. cbn [app]. rewrite peekz_0. cbn [option_bind].
-  assert (Hqq : (q =? 34) || (q =? 39) = true) by (destruct Hq; subst; reflexivity).
-  replace (is_ws q) with false by (destruct Hq; subst; reflexivity).
-  repeat (match goal with |- context [if ?b then _ else _] =>
-            first [ constr_eq b ((q =? 34) || (q =? 39)); fail 1
-                  | replace b with false by (destruct Hq; subst; reflexivity) ] end).
-  rewrite Hqq. unfold consume_string. rewrite peekz_0. cbn [option_bind tl].
-  rewrite <- app_assoc. cbn [app].
-  rewrite (string_loop_run q body nl r Hq Hb (or_intror Hnl)). rewrite Hnl. cbn [bump2 option_bind].
-  unfold or_delim. cbn [fst is_err]. rewrite !len_cons, len_app. change (len [nl]) with 1. f_equal; f_equal; lia.
+  cbn [app]. rewrite <- app_assoc. cbn [app]. rewrite (scan_quote q _ Hq).
+  rewrite (consume_string_run q body nl r Hq Hb (or_intror Hnl)). rewrite Hnl. reflexivity.
+Qed.
+
+(* a string that is not closed before the end of the input (optionally ending in a lone backslash) *)
+Lemma consume_string_eof q body bs : is_quote q -> sbody q body bs -> (bs = [] \/ bs = [92]) ->
+  consume_string (q :: body ++ bs ++ [0]) = Some (TString, len (q :: body ++ bs)).
+Proof.
+  intros Hq Hb Hbs. unfold consume_string. rewrite peekz_0. cbn [option_bind tl].
+  rewrite (string_loop_body q body bs Hq Hb).
+  destruct Hbs as [->| ->]; cbn [app].
+  - rewrite string_loop_0. cbn [eofb Z.eqb andb shift2 bump2 option_bind].
+    rewrite app_nil_r, len_cons. f_equal; f_equal; lia.
+  - rewrite string_loop_0. change (92 =? 0) with false. change (is_nl 92) with false.
+    replace (92 =? q) with false by (destruct Hq; subst; reflexivity). change (92 =? 92) with true. cbn [andb]. cbv beta iota.
+    change (consume_escape [92; 0]) with (Some 0). cbn [option_bind Z.ltb Z.compare]. cbv beta iota.
+    change (consume_newline [0]) with (Some 0). cbn [option_bind Z.to_nat]. rewrite string_loop_0.
+    cbn [eofb Z.eqb andb shift2 bump2 option_bind].
+    rewrite len_cons, len_app. change (len [92]) with 1. f_equal; f_equal; lia.
+Qed.
+
+Lemma munch_string_eof q body bs : is_quote q -> sbody q body bs -> (bs = [] \/ bs = [92]) ->
+  munch TString (q :: body ++ bs) [].
+Proof.
+  intros Hq Hb Hbs. split; [|split; [reflexivity|discriminate]].
+  cbn [app]. rewrite (scan_quote q _ Hq). rewrite <- app_assoc. rewrite (consume_string_eof q body bs Hq Hb Hbs). reflexivity.
+Qed.
+
+(* --- class: delimiters ------------------------------------------------------------------------------------------ *)
+(* bytes that start no other token whatever follows *)
+Definition plain_delim (c : Z) : bool :=
+  (c =? 33) || (c =? 37) || (c =? 38) || (c =? 61) || (c =? 62) || (c =? 63) || (c =? 96) || (c =? 127)
+  || ((1 <=? c) && (c <=? 8)) || (c =? 11) || ((14 <=? c) && (c <=? 31)).
+
+(* a delimiter byte c and what may follow it (CSS Syntax: the checks "would start a number / an identifier /
+   a valid escape", and the two-byte operators of this lexer) *)
+Definition delim_ok (c : Z) (r : list Z) : Prop :=
+  plain_delim c = true \/ c = 0 \/
+  (c = 35 /\ name_follow r) \/
+  (c = 64 /\ no_name_start r) \/
+  (c = 43 /\ is_digit (hd0 r) = false /\ (hd0 r = 46 -> is_digit (second r) = false)) \/
+  (c = 46 /\ is_digit (hd0 r) = false) \/
+  (c = 45 /\ is_digit (hd0 r) = false /\ (hd0 r = 46 -> is_digit (second r) = false) /\ hd0 r <> 45 /\ no_name_start r) \/
+  ((c = 36 \/ c = 42 \/ c = 94 \/ c = 126) /\ hd0 r <> 61) \/
+  (c = 124 /\ hd0 r <> 61 /\ hd0 r <> 124) \/
+  (c = 47 /\ hd0 r <> 42) \/
+  (c = 60 /\ ~ (hd0 r = 33 /\ second r = 45 /\ third r = 45)) \/
+  (c = 92 /\ (r = [] \/ is_nl (hd0 r) = true)).
+
+Lemma ident_token_fail_cons c r : ident_start c = false -> c <> 45 -> c <> 92 -> consume_ident_token (c :: r ++ [0]) = Some 0.
+Proof. intros H1 H2 H3. apply (ident_token_fail (c :: r)). split; [exact H1|split; [apply dead_bs_not; exact H3|cbn [hd0]; intros; congruence]]. Qed.
+
+Lemma identlike_fail l : consume_ident_token l = Some 0 -> consume_identlike l = Some (TError, 0).
+Proof. intros H. unfold consume_identlike. rewrite H. reflexivity. Qed.
+
+Lemma munch_delim c r : delim_ok c r -> munch TDelim [c] r.
+Proof.
+  intros H. split; [|split; [reflexivity|discriminate]]. cbn [app]. change (len [c]) with 1.
+  unfold css_scan. rewrite peekz_0. cbn [option_bind].
+  destruct H as [H|[H|[(-> & Hf1 & Hf2)|[(-> & Hn)|[(-> & Hd & Hdot)|[(-> & Hd)|[(-> & Hd & H46 & Hn2 & Hn)|[(Hc & Hf)|[(-> & Hf1 & Hf2)|[(-> & Hf)|[(-> & Hf)|(-> & Hf)]]]]]]]]]]].
+  - (* a byte that starts nothing *)
+    unfold plain_delim in H. repeat dec1. rewrite numeric_nondigit by (cls; lia). cbn [option_bind fst is_err negb].
+    rewrite identlike_fail by (apply ident_token_fail_cons; cls; lia). reflexivity.
+  - subst c. repeat dec1. rewrite eofb_cons_sent. reflexivity.
+  - repeat dec1. unfold consume_hash. cbn [tl]. rewrite peekz_sent_0. cbn [option_bind]. rewrite Hf1.
+    destruct (hd0 r =? 92) eqn:E92; [rewrite (dead_bs_step r Hf2 E92)|]; reflexivity.
+  - repeat dec1. unfold consume_at_keyword. cbn [tl]. rewrite (ident_token_fail r Hn). reflexivity.
+  - repeat dec1. unfold consume_numeric, consume_number_token. rewrite peekz_0. cbn [option_bind].
+    change (is_sign 43) with true. cbv beta iota. rewrite skipz_1.
+    assert (Hdg : digits (r ++ [0]) = Some 0).
+    { unfold digits. destruct r as [|x r]; cbn [app hd0] in *; rewrite scan_while_cons; [reflexivity|rewrite Hd; reflexivity]. }
+    rewrite Hdg. cbn [option_bind]. rewrite skipz_0, peekz_sent_0. cbn [option_bind].
+    destruct (hd0 r =? 46) eqn:E46; [|reflexivity].
+    destruct r as [|x r]; [discriminate E46|]. cbn [hd0 app tl] in *. unfold second in Hdot. cbn [tl] in Hdot.
+    assert (Hdg2 : digits (r ++ [0]) = Some 0).
+    { unfold digits. destruct r as [|y r]; cbn [app hd0] in *; rewrite scan_while_cons; [reflexivity|rewrite Hdot by lia; reflexivity]. }
+    rewrite Hdg2. reflexivity.
+  - repeat dec1. unfold consume_numeric, consume_number_token. rewrite peekz_0. cbn [option_bind].
+    change (is_sign 46) with false. cbv beta iota. rewrite skipz_0. unfold digits at 1. rewrite scan_while_cons.
+    change (is_digit 46) with false. cbv beta iota. cbn [option_bind]. rewrite skipz_0, peekz_0. cbn [option_bind tl].
+    change (46 =? 46) with true. cbv beta iota.
+    assert (Hdg : digits (r ++ [0]) = Some 0).
+    { unfold digits. destruct r as [|x r]; cbn [app hd0] in *; rewrite scan_while_cons; [reflexivity|rewrite Hd; reflexivity]. }
+    rewrite Hdg. reflexivity.
+  - destruct Hn as (Hn1 & Hn3 & _). repeat dec1.
+    unfold consume_cdc. rewrite peekz_0, peekz_1, peekz_sent_0. cbn [option_bind]. repeat dec1.
+    replace (hd0 r =? 45) with false by lia. cbn [negb option_bind Z.ltb Z.compare]. cbv beta iota.
+    unfold consume_custom_variable. rewrite peekz_1, peekz_sent_0. cbn [option_bind].
+    replace (hd0 r =? 45) with false by lia. cbn [negb option_bind Z.ltb Z.compare]. cbv beta iota.
+    assert (Hit : consume_ident_token (45 :: r ++ [0]) = Some 0).
+    { unfold consume_ident_token. rewrite peekz_0, peekz_1, peekz_sent_0. cbn [option_bind]. change (45 =? 45) with true.
+      cbv beta iota. replace (hd0 r =? 45) with false by lia. unfold ident_tail. rewrite skipz_1, peekz_sent_0.
+      cbn [option_bind]. rewrite Hn1. destruct (hd0 r =? 92) eqn:E92; [rewrite (dead_bs_step r Hn3 E92)|]; reflexivity. }
+    rewrite (identlike_fail _ Hit). cbn [option_bind fst is_err negb].
+    unfold consume_numeric, consume_number_token. rewrite peekz_0. cbn [option_bind].
+    change (is_sign 45) with true. cbv beta iota. rewrite skipz_1.
+    assert (Hdg : digits (r ++ [0]) = Some 0).
+    { unfold digits. destruct r as [|x r]; cbn [app hd0] in *; rewrite scan_while_cons; [reflexivity|rewrite Hd; reflexivity]. }
+    rewrite Hdg. cbn [option_bind]. rewrite skipz_0, peekz_sent_0. cbn [option_bind].
+    destruct (hd0 r =? 46) eqn:E46; [|reflexivity].
+    destruct r as [|x r]; [discriminate E46|]. cbn [hd0 app tl] in *. unfold second in H46. cbn [tl] in H46.
+    assert (Hdg2 : digits (r ++ [0]) = Some 0).
+    { unfold digits. destruct r as [|y r]; cbn [app hd0] in *; rewrite scan_while_cons; [reflexivity|rewrite H46 by lia; reflexivity]. }
+    rewrite Hdg2. reflexivity.
+  - assert (Hm : consume_match (c :: r ++ [0]) = Some (TError, 0)).
+    { unfold consume_match. rewrite peekz_1, peekz_sent_0. cbn [option_bind]. replace (hd0 r =? 61) with false by lia. reflexivity. }
+    repeat dec1. rewrite Hm. reflexivity.
+  - assert (Hm : consume_match (124 :: r ++ [0]) = Some (TError, 0)).
+    { unfold consume_match. rewrite peekz_1, peekz_sent_0. cbn [option_bind]. replace (hd0 r =? 61) with false by lia. reflexivity. }
+    repeat dec1. rewrite Hm. cbn [option_bind fst is_err negb]. unfold consume_column. rewrite peekz_0, peekz_1, peekz_sent_0.
+    cbn [option_bind]. repeat dec1. replace (hd0 r =? 124) with false by lia. reflexivity.
+  - repeat dec1. unfold consume_comment. rewrite peekz_0, peekz_1, peekz_sent_0. cbn [option_bind]. repeat dec1.
+    replace (hd0 r =? 42) with false by lia. reflexivity.
+  - repeat dec1. unfold consume_cdo. rewrite peekz_0, peekz_1, peekz_sent_0. cbn [option_bind]. repeat dec1.
+    destruct (hd0 r =? 33) eqn:E1; [|reflexivity]. cbn [negb].
+    destruct r as [|c1 r1]; [discriminate E1|]. cbn [hd0 app] in *. rewrite peekz_2, peekz_1, peekz_sent_0. cbn [option_bind].
+    destruct (hd0 r1 =? 45) eqn:E2; [|reflexivity]. cbn [negb].
+    destruct r1 as [|c2 r2]; [discriminate E2|]. cbn [hd0 app] in *. rewrite peekz_3, peekz_2, peekz_1, peekz_sent_0. cbn [option_bind].
+    replace (hd0 r2 =? 45) with false; [reflexivity|]. symmetry. apply Z.eqb_neq. intros E3. apply Hf. unfold second, third. cbn [tl hd0]. lia.
+  - repeat dec1.
+    assert (Hesc : consume_escape (92 :: r ++ [0]) = Some 0).
+    { unfold consume_escape. rewrite peekz_0. cbn [option_bind negb Z.eqb Pos.eqb tl].
+      destruct Hf as [->|Hnl]; [reflexivity|].
+      destruct r as [|x r]; [discriminate Hnl|]. cbn [hd0 app] in *.
+      destruct (consume_newline_ok (x :: r)) as (n & Hn & _). cbn [app] in Hn. rewrite Hn. cbn [option_bind].
+      rewrite (newline_pos _ _ _ Hn), Hnl. reflexivity. }
+    assert (Hit : consume_ident_token (92 :: r ++ [0]) = Some 0).
+    { unfold consume_ident_token. rewrite peekz_0. cbn [option_bind]. change (92 =? 45) with false. cbv beta iota.
+      unfold ident_tail. rewrite skipz_0, peekz_0. cbn [option_bind]. change (ident_start 92) with false. change (92 =? 92) with true.
+      cbv beta iota. rewrite Hesc. reflexivity. }
+    rewrite (identlike_fail _ Hit). reflexivity.
+Qed.
+
+(* --- class: unicode-range ---------------------------------------------------------------------------------------- *)
+Inductive urange_text : list Z -> list Z -> Prop :=
+| UR_hex u h q r : u = 117 \/ u = 85 -> all_b is_hex h -> all_b is_qmark q -> 1 <= len h + len q <= 6 ->
+    (q = [] -> is_hex (hd0 r) = false /\ hd0 r <> 45) -> hd0 r <> 63 ->
+    urange_text (u :: 43 :: h ++ q) r
+| UR_range u h1 h2 r : u = 117 \/ u = 85 -> all_b is_hex h1 -> 1 <= len h1 <= 6 -> all_b is_hex h2 -> 1 <= len h2 <= 6 ->
+    is_hex (hd0 r) = false -> urange_text (u :: 43 :: h1 ++ 45 :: h2) r.
+
+Lemma all_b_hd P a : all_b P a -> a <> [] -> P (hd0 a) = true.
+Proof. intros Ha Hne. destruct a; [congruence|]. inversion Ha; subst. assumption. Qed.
+
+Lemma munch_unicode_range t r : urange_text t r -> munch TUnicodeRange t r.
+Proof.
+  intros Ht. split; [|split; [reflexivity|destruct Ht; discriminate]].
+  assert (Hur : consume_unicode_range (t ++ r ++ [0]) = Some (len t) /\ 0 < len t /\
+                exists u rest, t = u :: rest /\ (u = 117 \/ u = 85)).
+  { destruct Ht as [u h q r Hu Hh Hq Hl Hf1 Hf2|u h1 h2 r Hu Hh1 Hl1 Hh2 Hl2 Hf].
+    - split; [|split; [lens; pose proof (len_nonneg (h ++ q)); lia|eauto]].
+      unfold consume_unicode_range. cbn [app]. rewrite peekz_0, peekz_1, peekz_0. cbn [option_bind].
+      replace ((u =? 117) || (u =? 85)) with true by lia. change (43 =? 43) with true. cbn [negb]. rewrite skipz_2.
+      rewrite <- app_assoc.
+      replace (h ++ q ++ r ++ [0]) with (h ++ (q ++ r) ++ [0]) by (rewrite <- app_assoc; reflexivity).
+      assert (Hnh : is_hex (hd0 (q ++ r)) = false).
+      { destruct q as [|q0 q]; [apply Hf1; reflexivity|]. inversion Hq; subst. cbn [app hd0]. cls. lia. }
+      rewrite (scan_while_run is_hex h (q ++ r) Hh Hnh eq_refl). cbn [option_bind]. rewrite skipz_len_app.
+      assert (Hn45 : hd0 (q ++ r) <> 45).
+      { destruct q as [|q0 q]; [apply Hf1; reflexivity|]. inversion Hq; subst. cbn [app hd0]. cls. lia. }
+      unfold consume_byte. rewrite peekz_sent_0. cbn [option_bind]. replace (hd0 (q ++ r) =? 45) with false by lia.
+      cbn [Z.ltb Z.compare]. cbv beta iota. rewrite <- app_assoc.
+      rewrite (scan_while_run is_qmark q r Hq) by (try reflexivity; unfold is_qmark; lia). cbn [option_bind].
+      replace ((len h + len q =? 0) || (6 <? len h + len q)) with false by lia.
+      rewrite !len_cons, len_app. f_equal; lia.
+    - split; [|split; [lens; pose proof (len_nonneg (h1 ++ 45 :: h2)); lia|eauto]].
+      unfold consume_unicode_range. cbn [app]. rewrite peekz_0, peekz_1, peekz_0. cbn [option_bind].
+      replace ((u =? 117) || (u =? 85)) with true by lia. change (43 =? 43) with true. cbn [negb]. rewrite skipz_2.
+      rewrite <- app_assoc. cbn [app].
+      replace (h1 ++ 45 :: h2 ++ r ++ [0]) with (h1 ++ (45 :: h2 ++ r) ++ [0]) by (cbn [app]; rewrite <- app_assoc; reflexivity).
+      rewrite (scan_while_run is_hex h1 (45 :: h2 ++ r) Hh1 eq_refl eq_refl). cbn [option_bind]. rewrite skipz_len_app.
+      unfold consume_byte. cbn [app]. rewrite peekz_0. cbn [option_bind]. change (45 =? 45) with true.
+      cbn [Z.ltb Z.compare]. cbv beta iota. replace ((len h1 =? 0) || (6 <? len h1)) with false by lia. cbn [tl].
+      rewrite <- app_assoc. rewrite (scan_while_run is_hex h2 r Hh2 Hf eq_refl). cbn [option_bind].
+      replace ((len h2 =? 0) || (6 <? len h2)) with false by lia.
+      rewrite !len_cons, len_app, len_cons. f_equal; lia. }
+  destruct Hur as (Hur & Hlen & u & rest & -> & Hu). cbn [app] in *.
+  unfold css_scan. rewrite peekz_0. cbn [option_bind]. repeat dec1. rewrite Hur. cbn [option_bind].
+  replace (0 <? len (u :: rest)) with true by lia. reflexivity.
+Qed.
+
+(* --- class: url( ) and bad-url --------------------------------------------------------------------------------- *)
+Ltac rassoc := repeat (rewrite <- ?app_assoc; progress cbn [app]); rewrite <- ?app_assoc.
+Ltac rassoc_in H := repeat (rewrite <- ?app_assoc in H; progress cbn [app] in H); rewrite <- ?app_assoc in H.
+
+(* the follower of a name only matters through its first byte *)
+Lemma nbody_follow t r r' : nbody t r -> hd0 r = hd0 r' -> nbody t r'.
+Proof.
+  intros H E. induction H as [r|c t r Hc Ht IH|e nb t r He Hnb Ht IH]; [constructor|constructor; auto|].
+  apply (NB_esc e nb); [exact He| |auto]. rewrite hd0_app in *. destruct t; [rewrite <- E; exact Hnb|exact Hnb].
+Qed.
+Lemma ident_core_follow t r r' : ident_core t r -> hd0 r = hd0 r' -> ident_core t r'.
+Proof.
+  intros [c rest r0 Hc Hb|e nb rest r0 He Hnb Hb] E.
+  - apply IC_char; [exact Hc|eapply nbody_follow; eassumption].
+  - apply (IC_esc e nb); [exact He| |eapply nbody_follow; eassumption].
+    rewrite hd0_app in *. destruct rest; [rewrite <- E; exact Hnb|exact Hnb].
+Qed.
+Lemma ident_text_follow t r r' : ident_text t r -> hd0 r = hd0 r' -> ident_text t r'.
+Proof. intros [t0 r0 H|t0 r0 H] E; [apply IT_core|apply IT_dash]; eapply ident_core_follow; eassumption. Qed.
+
+(* a name that reads "url" once backslashes are dropped, in any letter case *)
+Definition url_name (name : list Z) : Prop := ident_text name [40] /\ is_url_name name = true.
+
+(* how a url ends: with ")" or with the end of the input *)
+Inductive closer : list Z -> list Z -> Prop :=
+| CL_paren r : closer [41] r
+| CL_eof : closer [] [].
+
+Definition url_byte (c : Z) : bool := negb (url_bad_char c) && negb (c =? 41).
+Inductive ubody : list Z -> list Z -> Prop :=
+| UB_nil r : ubody [] r
+| UB_char c t r : url_byte c = true -> ubody t r -> ubody (c :: t) r
+| UB_esc e nb t r : esc_text e nb -> nb (hd0 (t ++ r)) = true -> ubody t r -> ubody (e ++ t) r.
+
+(* what consumeRemnantsBadURL skips: any byte but ")", whole escapes (so "\)" does not close), lone backslashes *)
+Inductive rbody : list Z -> list Z -> Prop :=
+| RB_nil r : rbody [] r
+| RB_char c t r : c <> 41 -> c <> 92 -> rbody t r -> rbody (c :: t) r
+| RB_esc e nb t r : esc_text e nb -> nb (hd0 (t ++ r)) = true -> rbody t r -> rbody (e ++ t) r
+| RB_bs t r : t ++ r = [] \/ is_nl (hd0 (t ++ r)) = true -> rbody t r -> rbody (92 :: t) r.
+
+Definition shift (n : Z) (o : option Z) : option Z := match o with Some m => Some (n + m) | None => None end.
+
+Lemma url_loop_skipn : forall a l, url_loop (a ++ l) (length a) = shift2 (len a) (url_loop l 0).
+Proof.
+  induction a as [|x a IH]; intros l; cbn [app length].
+  - change (len (@nil Z)) with 0. destruct (url_loop l 0) as [[ty n]|]; reflexivity.
+  - rewrite url_loop_skip, IH. destruct (url_loop l 0) as [[ty n]|]; cbn [bump2 shift2]; [|reflexivity].
+    rewrite len_cons. f_equal; f_equal; lia.
+Qed.
+
+Lemma badurl_loop_skipn : forall a l, badurl_loop (a ++ l) (length a) = shift (len a) (badurl_loop l 0).
+Proof.
+  induction a as [|x a IH]; intros l; cbn [app length].
+  - change (len (@nil Z)) with 0. destruct (badurl_loop l 0); reflexivity.
+  - rewrite badurl_loop_skip, IH. destruct (badurl_loop l 0); cbn [bump shift]; [|reflexivity].
+    rewrite len_cons. f_equal; lia.
+Qed.
+
+Lemma url_loop_body body x : ubody body x -> url_loop (body ++ x ++ [0]) 0 = shift2 (len body) (url_loop (x ++ [0]) 0).
+Proof.
+  intros Hb. induction Hb as [x|y body x Hy Hb IH|e nb t x He Hnb Ht IH].
+  - cbn [app]. change (len (@nil Z)) with 0. destruct (url_loop (x ++ [0]) 0) as [[ty n]|]; reflexivity.
+  - cbn [app]. rewrite url_loop_0. unfold url_byte in Hy. apply andb_true_iff in Hy. destruct Hy as [Hy1 Hy2].
+    replace (url_bad_char y) with false by (destruct (url_bad_char y); [discriminate|reflexivity]).
+    replace (y =? 41) with false by (destruct (y =? 41); [discriminate|reflexivity]).
+    replace (y =? 0) with false by (revert Hy1; cls; lia). cbn [andb orb].
+    rewrite IH. destruct (url_loop (x ++ [0]) 0) as [[ty n]|]; cbn [bump2 shift2]; [|reflexivity].
+    rewrite len_cons. f_equal; f_equal; lia.
+  - destruct (esc_text_bs e nb He) as (e' & -> & He').
+    pose proof (escape_run _ _ (t ++ x) He Hnb) as Hesc. rewrite <- !app_assoc in *. cbn [app] in *.
+    rewrite url_loop_0. change (92 =? 0) with false. change (92 =? 41) with false. change (url_bad_char 92) with true.
+    change (92 =? 92) with true. cbn [andb orb]. cbv beta iota.
+    rewrite Hesc. cbn [option_bind]. rewrite len_cons. replace (0 <? 1 + len e') with true by lia.
+    replace (Z.to_nat (1 + len e' - 1)) with (length e') by (unfold len; lia).
+    rewrite url_loop_skipn, IH. destruct (url_loop (x ++ [0]) 0) as [[ty n]|]; cbn [bump2 shift2]; [|reflexivity].
+    rewrite !len_cons, len_app. f_equal; f_equal; lia.
+Qed.
+
+Lemma escape_not_bs c l : c <> 92 -> consume_escape (c :: l) = Some 0.
+Proof. intros H. unfold consume_escape. rewrite peekz_0. cbn [option_bind]. replace (c =? 92) with false by lia. reflexivity. Qed.
+
+Lemma badurl_loop_body rem x : rbody rem x -> badurl_loop (rem ++ x ++ [0]) 0 = shift (len rem) (badurl_loop (x ++ [0]) 0).
+Proof.
+  intros Hb. induction Hb as [x|y t x Hy1 Hy2 Hb IH|e nb t x He Hnb Ht IH|t x Hf Ht IH].
+  - cbn [app]. change (len (@nil Z)) with 0. destruct (badurl_loop (x ++ [0]) 0); reflexivity.
+  - cbn [app]. rewrite badurl_loop_0. replace (y =? 41) with false by lia. rewrite app_assoc, eofb_cons_sent, <- app_assoc.
+    rewrite (escape_not_bs y _ Hy2). cbn [option_bind Z.ltb Z.compare]. cbv beta iota.
+    rewrite IH. destruct (badurl_loop (x ++ [0]) 0); cbn [bump shift]; [|reflexivity]. rewrite len_cons. f_equal; lia.
+  - destruct (esc_text_bs e nb He) as (e' & -> & He').
+    pose proof (escape_run _ _ (t ++ x) He Hnb) as Hesc. rewrite <- !app_assoc in *. cbn [app] in *.
+    rewrite badurl_loop_0. change (92 =? 41) with false. cbv beta iota.
+    replace (eofb (92 :: e' ++ t ++ x ++ [0])) with false
+      by (symmetry; replace (e' ++ t ++ x ++ [0]) with ((e' ++ t ++ x) ++ [0]) by (rewrite <- !app_assoc; reflexivity); apply eofb_cons_sent).
+    rewrite Hesc. cbn [option_bind]. rewrite len_cons. replace (0 <? 1 + len e') with true by lia.
+    replace (Z.to_nat (1 + len e' - 1)) with (length e') by (unfold len; lia).
+    rewrite badurl_loop_skipn, IH. destruct (badurl_loop (x ++ [0]) 0); cbn [bump shift]; [|reflexivity].
+    rewrite !len_cons, len_app. f_equal; lia.
+  - cbn [app]. rewrite badurl_loop_0. change (92 =? 41) with false. cbv beta iota.
+    rewrite app_assoc, eofb_cons_sent. rewrite (escape_fail _ Hf). cbn [option_bind Z.ltb Z.compare]. cbv beta iota.
+    rewrite <- app_assoc, IH. destruct (badurl_loop (x ++ [0]) 0); cbn [bump shift]; [|reflexivity]. rewrite len_cons. f_equal; lia.
+Qed.
+
+Lemma closer_badurl cl r : closer cl r -> badurl_loop (cl ++ r ++ [0]) 0 = Some (len cl).
+Proof. intros [r0|]; cbn [app]; [rewrite badurl_loop_0|]; reflexivity. Qed.
+
+Lemma closer_hd cl r : closer cl r -> hd0 (cl ++ r) = 41 \/ hd0 (cl ++ r) = 0.
+Proof. intros [r0|]; [left|right]; reflexivity. Qed.
+
+Lemma closer_url_loop cl r : closer cl r -> url_loop (cl ++ r ++ [0]) 0 = Some (true, 0).
+Proof. intros [r0|]; cbn [app]; [rewrite url_loop_0, orb_true_r|]; reflexivity. Qed.
+
+Lemma badurl_run rem cl r : rbody rem (cl ++ r) -> closer cl r ->
+  badurl_loop (rem ++ cl ++ r ++ [0]) 0 = Some (len rem + len cl).
+Proof.
+  intros Hb Hc. pose proof (badurl_loop_body rem (cl ++ r) Hb) as H. rewrite <- app_assoc in H. rewrite H.
+  rewrite (closer_badurl cl r Hc). reflexivity.
+Qed.
+
+(* after the url proper: optional whitespace, then the closer -> URL *)
+Lemma url_end_close n ws2 cl r : all_b is_ws ws2 -> closer cl r ->
+  url_end n (ws2 ++ cl ++ r ++ [0]) = Some (TURL, n + len ws2 + len cl).
+Proof.
+  intros Hw Hc. unfold url_end.
+  replace (ws2 ++ cl ++ r ++ [0]) with (ws2 ++ (cl ++ r) ++ [0]) by (rewrite <- app_assoc; reflexivity).
+  rewrite (scan_while_run is_ws ws2 (cl ++ r) Hw) by (try reflexivity; destruct (closer_hd cl r Hc) as [-> | ->]; reflexivity).
+  cbn [option_bind]. rewrite skipz_len_app. destruct Hc as [r0|]; cbn [app].
+  - unfold consume_byte. rewrite peekz_0. cbn [option_bind]. reflexivity.
+  - unfold consume_byte. cbn. f_equal; f_equal; lia.
+Qed.
+
+(* ... or something else -> bad-url up to the closer *)
+Lemma url_end_bad n ws2 rem cl r : all_b is_ws ws2 -> rem <> [] -> is_ws (hd0 rem) = false -> hd0 rem <> 41 ->
+  rbody rem (cl ++ r) -> closer cl r ->
+  url_end n (ws2 ++ rem ++ cl ++ r ++ [0]) = Some (TBadURL, n + len ws2 + len rem + len cl).
+Proof.
+  intros Hw Hne Hws H41 Hb Hc. unfold url_end.
+  replace (ws2 ++ rem ++ cl ++ r ++ [0]) with (ws2 ++ (rem ++ cl ++ r) ++ [0]) by (rewrite <- !app_assoc; reflexivity).
+  assert (Hhd : hd0 (rem ++ cl ++ r) = hd0 rem) by (destruct rem; [congruence|reflexivity]).
+  rewrite (scan_while_run is_ws ws2 (rem ++ cl ++ r) Hw) by (try reflexivity; rewrite Hhd; exact Hws).
+  cbn [option_bind]. rewrite skipz_len_app. unfold consume_byte. rewrite peekz_sent_0, Hhd. cbn [option_bind].
+  replace (hd0 rem =? 41) with false by lia. cbn [Z.ltb Z.compare orb].
+  replace (eofb ((rem ++ cl ++ r) ++ [0])) with false by (destruct rem; [congruence|symmetry; apply eofb_cons_sent]).
+  rewrite <- !app_assoc. rewrite (badurl_run rem cl r Hb Hc). cbn [option_bind]. f_equal; f_equal; lia.
+Qed.
+
+(* a quoted url argument s followed by y: a string, a bad string (bad = true), or a string cut by the end of input *)
+Inductive qarg : list Z -> list Z -> bool -> Prop :=
+| QA_str q sb y : is_quote q -> sbody q sb (q :: y) -> qarg (q :: sb ++ [q]) y false
+| QA_bad q sb nl y : is_quote q -> sbody q sb (nl :: y) -> is_nl nl = true -> qarg (q :: sb ++ [nl]) y true
+| QA_eof q sb bs : is_quote q -> sbody q sb bs -> bs = [] \/ bs = [92] -> qarg (q :: sb ++ bs) [] false.
+
+Lemma qarg_run s y bad : qarg s y bad ->
+  consume_string (s ++ y ++ [0]) = Some (if bad then TBadString else TString, len s) /\
+  ((hd0 s =? 34) || (hd0 s =? 39) = true) /\ s <> [].
+Proof.
+  intros [q sb y0 Hq Hb|q sb nl y0 Hq Hb Hnl|q sb bs Hq Hb Hbs]; (split; [|split; [destruct Hq; subst; reflexivity|discriminate]]).
+  - rassoc. rewrite (consume_string_run q sb q y0 Hq Hb (or_introl eq_refl)).
+    replace (is_nl q) with false by (destruct Hq; subst; reflexivity). reflexivity.
+  - rassoc. rewrite (consume_string_run q sb nl y0 Hq Hb (or_intror Hnl)). rewrite Hnl. reflexivity.
+  - rassoc. apply consume_string_eof; assumption.
+Qed.
+
+(* Next on  name "(" ws* z  with a url name: the url argument decides *)
+Lemma scan_url name ws1 z ty n : url_name name -> all_b is_ws ws1 -> is_ws (hd0 z) = false ->
+  url_arg (len name + 1 + len ws1) (z ++ [0]) = Some (ty, n) -> is_err ty = false ->
+  css_scan (name ++ 40 :: ws1 ++ z ++ [0]) = Some (ty, n).
+Proof.
+  intros [Ht0 Hurl] Hw Hz Harg Hty.
+  assert (Ht : ident_text name (40 :: ws1 ++ z)) by (eapply ident_text_follow; [exact Ht0|reflexivity]).
+  pose proof (ident_token_run name _ (or_introl Ht) (name_follow_paren _)) as Hit.
+  pose proof (ident_text_len name _ Ht) as Hlen.
+  assert (Hil : consume_identlike (name ++ (40 :: ws1 ++ z) ++ [0]) = Some (ty, n)).
+  { unfold consume_identlike. rewrite Hit. cbn [option_bind]. replace (len name =? 0) with false by lia.
+    rewrite skipz_len_app. cbn [app]. rewrite peekz_0. cbn [option_bind]. change (negb (40 =? 40)) with false.
+    cbv beta iota. rewrite firstz_len_app. rewrite Hurl. cbn [negb tl]. rewrite <- app_assoc.
+    rewrite (scan_while_run is_ws ws1 z Hw Hz eq_refl). cbn [option_bind]. rewrite skipz_len_app. exact Harg. }
+  pose proof (scan_via_identlike name (40 :: ws1 ++ z) ty n) as H. rassoc_in H. rassoc_in Hil. apply H; [eauto| |exact Hil|exact Hty].
+  destruct name as [|c [|c1 n']]; try exact I. intros _. exfalso. unfold is_url_name, strip_backslash in Hurl.
+  cbn [filter] in Hurl. destruct (negb (c =? 92)); discriminate.
+Qed.
+
+Lemma url_arg_quoted n s y bad : qarg s y bad ->
+  url_arg n (s ++ y ++ [0]) =
+    if bad then r <- badurl_loop (y ++ [0]) 0 ;; Some (TBadURL, n + len s + r) else url_end (n + len s) (y ++ [0]).
+Proof.
+  intros Hs. destruct (qarg_run _ _ _ Hs) as (Hrun & Hq & Hne). unfold url_arg. rewrite Hrun.
+  destruct s as [|c s]; [congruence|]. cbn [app hd0] in *. rewrite peekz_0. cbn [option_bind]. rewrite Hq.
+  cbn [fst snd]. change (c :: s ++ y ++ [0]) with ((c :: s) ++ y ++ [0]). rewrite skipz_len_app.
+  destruct bad; reflexivity.
+Qed.
+
+Definition not_quote (c : Z) : Prop := (c =? 34) || (c =? 39) = false.
+
+Lemma ubody_hd body x : ubody body x -> body <> [] -> (url_byte (hd0 body) = true \/ hd0 body = 92).
+Proof.
+  intros [x0|c t x0 Hc _|e nb t x0 He _ _] Hne; [congruence|left; exact Hc|right].
+  destruct (esc_text_bs _ _ He) as (e' & -> & _). reflexivity.
+Qed.
+
+Lemma ubody_hd_ok body x : ubody body x -> body <> [] -> not_quote (hd0 body) /\ is_ws (hd0 body) = false.
+Proof.
+  intros Hb Hne. destruct (ubody_hd _ _ Hb Hne) as [H|H].
+  - unfold url_byte in H. apply andb_true_iff in H. destruct H as [H _]. unfold not_quote. revert H. cls. lia.
+  - rewrite H. split; reflexivity.
+Qed.
+
+(* the unquoted argument runs to x where consumeUnquotedURL returns true (")" or end of input) *)
+Lemma url_arg_open n body x : ubody body x -> not_quote (hd0 (body ++ x)) -> url_loop (x ++ [0]) 0 = Some (true, 0) ->
+  url_arg n (body ++ x ++ [0]) = url_end (n + len body) (x ++ [0]).
+Proof.
+  intros Hb Hq Hx. unfold url_arg. rewrite app_assoc, peekz_sent_0, <- app_assoc. cbn [option_bind]. rewrite Hq.
+  rewrite (url_loop_body body x Hb), Hx. cbn [shift2 option_bind fst snd]. rewrite Z.add_0_r, skipz_len_app. reflexivity.
+Qed.
+
+(* ... or to a byte where it returns false *)
+Lemma url_arg_stop n body x : ubody body x -> not_quote (hd0 (body ++ x)) -> url_loop (x ++ [0]) 0 = Some (false, 0) ->
+  url_arg n (body ++ x ++ [0]) =
+    (ws <- consume_whitespace (x ++ [0]) ;;
+     if 0 <? ws then url_end (n + len body + 1) (skipz (len body + 1) (body ++ x ++ [0]))
+     else r <- badurl_loop (x ++ [0]) 0 ;; Some (TBadURL, n + len body + r)).
+Proof.
+  intros Hb Hq Hx. unfold url_arg. rewrite app_assoc, peekz_sent_0, <- app_assoc. cbn [option_bind]. rewrite Hq.
+  rewrite (url_loop_body body x Hb), Hx. cbn [shift2 option_bind fst snd]. rewrite Z.add_0_r, skipz_len_app. reflexivity.
+Qed.
+
+Lemma url_loop_ws w x : is_ws w = true -> url_loop (w :: x ++ [0]) 0 = Some (false, 0).
+Proof.
+  intros Hw. rewrite url_loop_0, eofb_cons_sent, andb_false_r. cbn [orb].
+  replace (w =? 41) with false by (revert Hw; cls; lia). replace (url_bad_char w) with true by (revert Hw; cls; lia).
+  replace (w =? 92) with false by (revert Hw; cls; lia). reflexivity.
+Qed.
+
+(* a byte that stops an unquoted url without being whitespace: a quote, "(", a control byte, DEL, or a backslash that
+   starts no escape *)
+Definition url_stop (bc : Z) (y : list Z) : Prop :=
+  url_bad_char bc = true /\ is_ws bc = false /\ (bc = 92 -> y = [] \/ is_nl (hd0 y) = true).
+
+Lemma url_loop_stop bc y : url_stop bc y -> url_loop (bc :: y ++ [0]) 0 = Some (false, 0).
+Proof.
+  intros (Hb & Hw & H92). rewrite url_loop_0, eofb_cons_sent, andb_false_r. cbn [orb].
+  replace (bc =? 41) with false by (revert Hb; cls; lia). rewrite Hb.
+  destruct (bc =? 92) eqn:E; [|reflexivity]. assert (bc = 92) by lia. subst bc.
+  rewrite (escape_fail y (H92 eq_refl)). reflexivity.
+Qed.
+
+Lemma munch_url_unquoted name ws1 body ws2 cl r :
+  url_name name -> all_b is_ws ws1 -> ubody body (ws2 ++ cl ++ r) -> all_b is_ws ws2 -> (body = [] -> ws2 = []) ->
+  closer cl r -> munch TURL (name ++ 40 :: ws1 ++ body ++ ws2 ++ cl) r.
+Proof.
+  intros Hn Hw1 Hb Hw2 Hbw Hc. split; [|split; [reflexivity|destruct name; discriminate]].
+  assert (Hhd : not_quote (hd0 (body ++ ws2 ++ cl ++ r)) /\ is_ws (hd0 (body ++ ws2 ++ cl ++ r)) = false).
+  { destruct body as [|b0 body].
+    - rewrite (Hbw eq_refl). cbn [app]. destruct (closer_hd cl r Hc) as [-> | ->]; split; reflexivity.
+    - apply (ubody_hd_ok _ _ Hb). discriminate. }
+  destruct Hhd as [Hq Hz].
+  pose proof (scan_url name ws1 (body ++ ws2 ++ cl ++ r) TURL (len (name ++ 40 :: ws1 ++ body ++ ws2 ++ cl)) Hn Hw1 Hz) as H.
+  rassoc_in H. rassoc. apply H; [|reflexivity]. clear H.
+  destruct ws2 as [|w ws2].
+  - cbn [app] in *. pose proof (url_arg_open (len name + 1 + len ws1) body (cl ++ r) Hb Hq) as Ho. rassoc_in Ho.
+    rewrite Ho by (apply closer_url_loop; exact Hc). clear Ho.
+    pose proof (url_end_close (len name + 1 + len ws1 + len body) [] cl r (Forall_nil _) Hc) as He. cbn [app] in He.
+    rewrite He. rewrite !len_app, len_cons, !len_app. change (len (@nil Z)) with 0. f_equal; f_equal; lia.
+  - inversion Hw2 as [|? ? Hw Hw2']; subst.
+    pose proof (url_arg_stop (len name + 1 + len ws1) body (w :: ws2 ++ cl ++ r) Hb Hq) as Hs. cbn [app] in Hs. rassoc_in Hs.
+    cbn [app]. rewrite Hs by (pose proof (url_loop_ws w (ws2 ++ cl ++ r) Hw) as Hl; rassoc_in Hl; exact Hl). clear Hs.
+    unfold consume_whitespace. rewrite peekz_0. cbn [option_bind]. rewrite Hw. cbn [Z.ltb Z.compare]. cbv beta iota.
+    replace (len body + 1) with (len (body ++ [w])) by (rewrite len_app; reflexivity).
+    replace (body ++ w :: ws2 ++ cl ++ r ++ [0]) with ((body ++ [w]) ++ ws2 ++ cl ++ r ++ [0]) by (rewrite <- app_assoc; reflexivity).
+    rewrite skipz_len_app. rewrite (url_end_close _ ws2 cl r Hw2' Hc).
+    rewrite !len_app, !len_cons, !len_app, len_cons, len_app. change (len [w]) with 1. f_equal; f_equal; lia.
+Qed.
+
+Lemma munch_url_quoted name ws1 s ws2 cl r :
+  url_name name -> all_b is_ws ws1 -> qarg s (ws2 ++ cl ++ r) false -> all_b is_ws ws2 -> closer cl r ->
+  munch TURL (name ++ 40 :: ws1 ++ s ++ ws2 ++ cl) r.
+Proof.
+  intros Hn Hw1 Hs Hw2 Hc. split; [|split; [reflexivity|destruct name; discriminate]].
+  destruct (qarg_run _ _ _ Hs) as (Hrun & Hq & Hne).
+  assert (Hhd : hd0 (s ++ ws2 ++ cl ++ r) = hd0 s) by (destruct s; [congruence|reflexivity]).
+  assert (Hz : is_ws (hd0 (s ++ ws2 ++ cl ++ r)) = false) by (rewrite Hhd; revert Hq; cls; lia).
+  pose proof (scan_url name ws1 (s ++ ws2 ++ cl ++ r) TURL (len (name ++ 40 :: ws1 ++ s ++ ws2 ++ cl)) Hn Hw1 Hz) as H.
+  rassoc_in H. rassoc. apply H; [|reflexivity]. clear H.
+  pose proof (url_arg_quoted (len name + 1 + len ws1) s (ws2 ++ cl ++ r) false Hs) as Ha. rassoc_in Ha. rewrite Ha.
+  rewrite (url_end_close _ ws2 cl r Hw2 Hc).
+  rewrite !len_app, len_cons, !len_app. f_equal; f_equal; lia.
+Qed.
+
+(* bad-url: the unquoted url is cut by a byte that is not allowed in it *)
+Lemma munch_badurl_char name ws1 body bc rem cl r :
+  url_name name -> all_b is_ws ws1 -> ubody body (bc :: rem ++ cl ++ r) -> url_stop bc (rem ++ cl ++ r) ->
+  (body = [] -> not_quote bc) -> rbody (bc :: rem) (cl ++ r) -> closer cl r ->
+  munch TBadURL (name ++ 40 :: ws1 ++ body ++ bc :: rem ++ cl) r.
+Proof.
+  intros Hn Hw1 Hb Hst Hbq Hr Hc. split; [|split; [reflexivity|destruct name; discriminate]].
+  assert (Hhd : not_quote (hd0 (body ++ bc :: rem ++ cl ++ r)) /\ is_ws (hd0 (body ++ bc :: rem ++ cl ++ r)) = false).
+  { destruct body as [|b0 body].
+    - cbn [app hd0]. split; [apply Hbq; reflexivity|apply Hst].
+    - apply (ubody_hd_ok _ _ Hb). discriminate. }
+  destruct Hhd as [Hq Hz].
+  pose proof (scan_url name ws1 (body ++ bc :: rem ++ cl ++ r) TBadURL (len (name ++ 40 :: ws1 ++ body ++ bc :: rem ++ cl)) Hn Hw1 Hz) as H.
+  rassoc_in H. rassoc. apply H; [|reflexivity]. clear H.
+  pose proof (url_arg_stop (len name + 1 + len ws1) body (bc :: rem ++ cl ++ r) Hb Hq) as Hs. cbn [app] in Hs. rassoc_in Hs.
+  rewrite Hs by (pose proof (url_loop_stop bc (rem ++ cl ++ r) Hst) as Hl; rassoc_in Hl; exact Hl). clear Hs.
+  unfold consume_whitespace. rewrite peekz_0. cbn [option_bind]. destruct Hst as (_ & Hws & _). rewrite Hws.
+  cbn [Z.ltb Z.compare]. cbv beta iota.
+  pose proof (badurl_run (bc :: rem) cl r Hr Hc) as Hbr. cbn [app] in Hbr. rewrite Hbr. cbn [option_bind].
+  rewrite !len_app, !len_cons, !len_app, len_cons, len_app. f_equal; f_equal; lia.
+Qed.
+
+(* bad-url: whitespace inside the unquoted url, then more text *)
+Lemma munch_badurl_ws name ws1 body ws2 rem cl r :
+  url_name name -> all_b is_ws ws1 -> ubody body (ws2 ++ rem ++ cl ++ r) -> body <> [] -> all_b is_ws ws2 -> ws2 <> [] ->
+  rem <> [] -> is_ws (hd0 rem) = false -> hd0 rem <> 41 -> rbody rem (cl ++ r) -> closer cl r ->
+  munch TBadURL (name ++ 40 :: ws1 ++ body ++ ws2 ++ rem ++ cl) r.
+Proof.
+  intros Hn Hw1 Hb Hbne Hw2 Hw2ne Hrne Hrw Hr41 Hr Hc. split; [|split; [reflexivity|destruct name; discriminate]].
+  destruct (ubody_hd_ok _ _ Hb Hbne) as [Hq0 Hz0].
+  assert (Hhd : hd0 (body ++ ws2 ++ rem ++ cl ++ r) = hd0 body) by (destruct body; [congruence|reflexivity]).
+  assert (Hq : not_quote (hd0 (body ++ ws2 ++ rem ++ cl ++ r))) by (rewrite Hhd; exact Hq0).
+  assert (Hz : is_ws (hd0 (body ++ ws2 ++ rem ++ cl ++ r)) = false) by (rewrite Hhd; exact Hz0).
+  pose proof (scan_url name ws1 (body ++ ws2 ++ rem ++ cl ++ r) TBadURL (len (name ++ 40 :: ws1 ++ body ++ ws2 ++ rem ++ cl)) Hn Hw1 Hz) as H.
+  rassoc_in H. rassoc. apply H; [|reflexivity]. clear H.
+  destruct ws2 as [|w ws2]; [congruence|]. inversion Hw2 as [|? ? Hw Hw2']; subst.
+  pose proof (url_arg_stop (len name + 1 + len ws1) body (w :: ws2 ++ rem ++ cl ++ r) Hb Hq) as Hs. cbn [app] in Hs. rassoc_in Hs.
+  cbn [app]. rewrite Hs by (pose proof (url_loop_ws w (ws2 ++ rem ++ cl ++ r) Hw) as Hl; rassoc_in Hl; exact Hl). clear Hs.
+  unfold consume_whitespace. rewrite peekz_0. cbn [option_bind]. rewrite Hw. cbn [Z.ltb Z.compare]. cbv beta iota.
+  replace (len body + 1) with (len (body ++ [w])) by (rewrite len_app; reflexivity).
+  replace (body ++ w :: ws2 ++ rem ++ cl ++ r ++ [0]) with ((body ++ [w]) ++ ws2 ++ rem ++ cl ++ r ++ [0]) by (rewrite <- app_assoc; reflexivity).
+  rewrite skipz_len_app. rewrite (url_end_bad _ ws2 rem cl r Hw2' Hrne Hrw Hr41 Hr Hc).
+  rewrite !len_app, !len_cons, !len_app, len_cons, !len_app. change (len [w]) with 1. f_equal; f_equal; lia.
+Qed.
+
+(* bad-url: text after the quoted url *)
+Lemma munch_badurl_after_string name ws1 s ws2 rem cl r :
+  url_name name -> all_b is_ws ws1 -> qarg s (ws2 ++ rem ++ cl ++ r) false -> all_b is_ws ws2 ->
+  rem <> [] -> is_ws (hd0 rem) = false -> hd0 rem <> 41 -> rbody rem (cl ++ r) -> closer cl r ->
+  munch TBadURL (name ++ 40 :: ws1 ++ s ++ ws2 ++ rem ++ cl) r.
+Proof.
+  intros Hn Hw1 Hs Hw2 Hrne Hrw Hr41 Hr Hc. split; [|split; [reflexivity|destruct name; discriminate]].
+  destruct (qarg_run _ _ _ Hs) as (Hrun & Hq & Hne).
+  assert (Hhd : hd0 (s ++ ws2 ++ rem ++ cl ++ r) = hd0 s) by (destruct s; [congruence|reflexivity]).
+  assert (Hz : is_ws (hd0 (s ++ ws2 ++ rem ++ cl ++ r)) = false) by (rewrite Hhd; revert Hq; cls; lia).
+  pose proof (scan_url name ws1 (s ++ ws2 ++ rem ++ cl ++ r) TBadURL (len (name ++ 40 :: ws1 ++ s ++ ws2 ++ rem ++ cl)) Hn Hw1 Hz) as H.
+  rassoc_in H. rassoc. apply H; [|reflexivity]. clear H.
+  pose proof (url_arg_quoted (len name + 1 + len ws1) s (ws2 ++ rem ++ cl ++ r) false Hs) as Ha. rassoc_in Ha. rewrite Ha.
+  rewrite (url_end_bad _ ws2 rem cl r Hw2 Hrne Hrw Hr41 Hr Hc).
+  rewrite !len_app, len_cons, !len_app. f_equal; f_equal; lia.
+Qed.
+
+(* bad-url: the quoted url is a bad string *)
+Lemma munch_badurl_bad_string name ws1 s rem cl r :
+  url_name name -> all_b is_ws ws1 -> qarg s (rem ++ cl ++ r) true -> rbody rem (cl ++ r) -> closer cl r ->
+  munch TBadURL (name ++ 40 :: ws1 ++ s ++ rem ++ cl) r.
+Proof.
+  intros Hn Hw1 Hs Hr Hc. split; [|split; [reflexivity|destruct name; discriminate]].
+  destruct (qarg_run _ _ _ Hs) as (Hrun & Hq & Hne).
+  assert (Hhd : hd0 (s ++ rem ++ cl ++ r) = hd0 s) by (destruct s; [congruence|reflexivity]).
+  assert (Hz : is_ws (hd0 (s ++ rem ++ cl ++ r)) = false) by (rewrite Hhd; revert Hq; cls; lia).
+  pose proof (scan_url name ws1 (s ++ rem ++ cl ++ r) TBadURL (len (name ++ 40 :: ws1 ++ s ++ rem ++ cl)) Hn Hw1 Hz) as H.
+  rassoc_in H. rassoc. apply H; [|reflexivity]. clear H.
+  pose proof (url_arg_quoted (len name + 1 + len ws1) s (rem ++ cl ++ r) true Hs) as Ha. rassoc_in Ha. rewrite Ha.
+  rewrite (badurl_run rem cl r Hr Hc). cbn [option_bind].
+  rewrite !len_app, len_cons, !len_app. f_equal; f_equal; lia.
 Qed.
 
 (* --- the token grammar, class by class, with what may follow each token ------------------------------------------ *)
-(* tok_spec ty t r : t is a text of a token of type ty according to the railroad diagrams of the classes
-   proved so far, and the rest r of the input does not merge with it.  Not covered (no constructor): escapes
-   inside names and strings, url( / bad-url tokens, unicode-range tokens, delimiters. *)
+(* tok_spec ty t r : t is a text of a token of type ty according to the railroad diagrams of CSS Syntax (as this
+   lexer reads them), and the rest r of the input does not merge with it.  Every token type has its constructors:
+   whitespace, the fixed texts, comments (closed / cut by the end of input), names with escapes (ident, custom
+   property, function, at-keyword, hash, dimension unit), numbers, strings and bad strings with escapes and line
+   continuations, url( ) unquoted and quoted, the four bad-url shapes with the remnants up to ")", unicode-range,
+   and every delimiter byte with the followers that leave it a delimiter.  Not covered (no constructor): a
+   backslash followed by a UTF-8 lead byte whose continuation bytes are cut by the end of the input; "u"/"U" directly
+   followed by "+" and a malformed range (see u_follow). *)
 Inductive tok_spec : ttype -> list Z -> list Z -> Prop :=
 | TS_ws t r : t <> [] -> all_b is_ws t -> is_ws (hd0 r) = false -> tok_spec TWhitespace t r
 | TS_fixed ty t r : In (ty, t) fixed_tokens -> tok_spec ty t r
 | TS_comment body r : no_close body = true -> tok_spec TComment (47 :: 42 :: body ++ [42; 47]) r
-| TS_ident t r : ident_text t -> name_follow r -> hd0 r <> 40 -> u_follow t r -> tok_spec TIdent t r
-| TS_custom t r : custom_text t -> name_follow r -> (t = [45; 45] -> hd0 r <> 62) -> tok_spec TCustomPropertyName t r
-| TS_function name r : ident_text name -> is_url_name name = false -> tok_spec TFunction (name ++ [40]) r
-| TS_at name r : ident_text name \/ custom_text name -> name_follow r -> tok_spec TAtKeyword (64 :: name) r
-| TS_hash body r : body <> [] -> all_b ident_char body -> name_follow r -> tok_spec THash (35 :: body) r
+| TS_ident t r : ident_text t r -> name_follow r -> hd0 r <> 40 -> u_follow t r -> tok_spec TIdent t r
+| TS_custom t r : custom_text t r -> name_follow r -> (t = [45; 45] -> hd0 r <> 62) -> tok_spec TCustomPropertyName t r
+| TS_function name r : ident_text name (40 :: r) -> is_url_name name = false -> tok_spec TFunction (name ++ [40]) r
+| TS_at name r : ident_text name r \/ custom_text name r -> name_follow r -> tok_spec TAtKeyword (64 :: name) r
+| TS_hash body r : body <> [] -> nbody body r -> name_follow r -> tok_spec THash (35 :: body) r
 | TS_number sg ip fd ex r :
     sign_text sg -> all_b is_digit ip -> all_b is_digit fd -> (ip <> [] \/ fd <> []) -> exp_text ex ->
     num_follow (nonemptyb fd) (nonemptyb ex) r -> hd0 r <> 37 -> no_name_start r ->
@@ -677,11 +1510,36 @@ Inductive tok_spec : ttype -> list Z -> list Z -> Prop :=
     tok_spec TPercentage ((sg ++ ip ++ frac fd ++ ex) ++ [37]) r
 | TS_dimension sg ip fd ex unit r :
     sign_text sg -> all_b is_digit ip -> all_b is_digit fd -> (ip <> [] \/ fd <> []) -> exp_text ex ->
-    ident_text unit \/ custom_text unit -> num_follow (nonemptyb fd) (nonemptyb ex) (unit ++ r) -> name_follow r ->
+    ident_text unit r \/ custom_text unit r -> num_follow (nonemptyb fd) (nonemptyb ex) (unit ++ r) -> name_follow r ->
     tok_spec TDimension ((sg ++ ip ++ frac fd ++ ex) ++ unit) r
-| TS_string q body r : is_quote q -> all_b (str_byte q) body -> tok_spec TString (q :: body ++ [q]) r
-| TS_bad_string q body nl r : is_quote q -> all_b (str_byte q) body -> is_nl nl = true ->
-    tok_spec TBadString (q :: body ++ [nl]) r.
+| TS_string q body r : is_quote q -> sbody q body (q :: r) -> tok_spec TString (q :: body ++ [q]) r
+| TS_bad_string q body nl r : is_quote q -> sbody q body (nl :: r) -> is_nl nl = true ->
+    tok_spec TBadString (q :: body ++ [nl]) r
+| TS_string_eof q body bs : is_quote q -> sbody q body bs -> bs = [] \/ bs = [92] -> tok_spec TString (q :: body ++ bs) []
+| TS_delim c r : delim_ok c r -> tok_spec TDelim [c] r
+| TS_unicode_range t r : urange_text t r -> tok_spec TUnicodeRange t r
+| TS_comment_eof body : no_close body = true -> tok_spec TComment (47 :: 42 :: body) []
+| TS_url_unquoted name ws1 body ws2 cl r :
+    url_name name -> all_b is_ws ws1 -> ubody body (ws2 ++ cl ++ r) -> all_b is_ws ws2 -> (body = [] -> ws2 = []) ->
+    closer cl r -> tok_spec TURL (name ++ 40 :: ws1 ++ body ++ ws2 ++ cl) r
+| TS_url_quoted name ws1 s ws2 cl r :
+    url_name name -> all_b is_ws ws1 -> qarg s (ws2 ++ cl ++ r) false -> all_b is_ws ws2 -> closer cl r ->
+    tok_spec TURL (name ++ 40 :: ws1 ++ s ++ ws2 ++ cl) r
+| TS_badurl_char name ws1 body bc rem cl r :
+    url_name name -> all_b is_ws ws1 -> ubody body (bc :: rem ++ cl ++ r) -> url_stop bc (rem ++ cl ++ r) ->
+    (body = [] -> not_quote bc) -> rbody (bc :: rem) (cl ++ r) -> closer cl r ->
+    tok_spec TBadURL (name ++ 40 :: ws1 ++ body ++ bc :: rem ++ cl) r
+| TS_badurl_ws name ws1 body ws2 rem cl r :
+    url_name name -> all_b is_ws ws1 -> ubody body (ws2 ++ rem ++ cl ++ r) -> body <> [] -> all_b is_ws ws2 -> ws2 <> [] ->
+    rem <> [] -> is_ws (hd0 rem) = false -> hd0 rem <> 41 -> rbody rem (cl ++ r) -> closer cl r ->
+    tok_spec TBadURL (name ++ 40 :: ws1 ++ body ++ ws2 ++ rem ++ cl) r
+| TS_badurl_after_string name ws1 s ws2 rem cl r :
+    url_name name -> all_b is_ws ws1 -> qarg s (ws2 ++ rem ++ cl ++ r) false -> all_b is_ws ws2 ->
+    rem <> [] -> is_ws (hd0 rem) = false -> hd0 rem <> 41 -> rbody rem (cl ++ r) -> closer cl r ->
+    tok_spec TBadURL (name ++ 40 :: ws1 ++ s ++ ws2 ++ rem ++ cl) r
+| TS_badurl_bad_string name ws1 s rem cl r :
+    url_name name -> all_b is_ws ws1 -> qarg s (rem ++ cl ++ r) true -> rbody rem (cl ++ r) -> closer cl r ->
+    tok_spec TBadURL (name ++ 40 :: ws1 ++ s ++ rem ++ cl) r.
 
 Lemma tok_spec_munch ty t r : tok_spec ty t r -> munch ty t r.
 Proof.
@@ -699,6 +1557,16 @@ Proof.
   - apply munch_dimension; assumption.
   - apply munch_string; assumption.
   - apply munch_bad_string; assumption.
+  - apply munch_string_eof; assumption.
+  - apply munch_delim; assumption.
+  - apply munch_unicode_range; assumption.
+  - apply munch_comment_eof; assumption.
+  - apply munch_url_unquoted; assumption.
+  - apply munch_url_quoted; assumption.
+  - apply munch_badurl_char; assumption.
+  - apply munch_badurl_ws; assumption.
+  - apply munch_badurl_after_string; assumption.
+  - apply munch_badurl_bad_string; assumption.
 Qed.
 
 (* every token is written according to its class and may be followed by the texts of the tokens after it *)
@@ -724,6 +1592,8 @@ Proof.
 Qed.
 
 (* "a: 1.e3px" written as  a  :  ws  1  .  e3px : the '.' is given back by the number, and "-1e" "+" ... *)
+Ltac nf_solve := split; [reflexivity|apply dead_bs_not; cbn; lia].
+Ltac nns_solve := split; [reflexivity|split; [apply dead_bs_not; cbn; lia|cbn; intros; lia]].
 Example seq_ok_example :
   seq_ok [ (TIdent, [97]); (TColon, [58]); (TWhitespace, [32]); (TNumber, [49]); (TColon, [58]);
            (TDimension, [45; 49; 46; 53; 101; 109]); (TSemicolon, [59]);
@@ -733,18 +1603,49 @@ Proof.
   { intros P l H. unfold all_b. rewrite Forall_forall. rewrite forallb_forall in H. exact H. }
   cbn [seq_ok fst snd map concat app].
   repeat split.
-  - apply TS_ident; [apply (IT_plain 97 []); [reflexivity|constructor]|split; [reflexivity|cbn; lia]|cbn; lia|cbn; intros; discriminate].
+  - apply TS_ident; [apply IT_core, (IC_char 97 []); [reflexivity|constructor]|nf_solve|cbn; lia|cbn; intros; discriminate].
   - apply TS_fixed. cbn. auto.
   - apply TS_ws; [discriminate|apply Hall; reflexivity|reflexivity].
-  - apply (TS_number [] [49] [] []); [left; reflexivity|apply Hall; reflexivity|constructor|left; discriminate|constructor| |cbn; lia|repeat split; cbn; lia].
+  - apply (TS_number [] [49] [] []); [left; reflexivity|apply Hall; reflexivity|constructor|left; discriminate|constructor| |cbn; lia|nns_solve].
     repeat split; cbn; intros; try lia; try discriminate.
   - apply TS_fixed. cbn. auto.
   - apply (TS_dimension [45] [49] [53] [] [101; 109]);
-      [right; right; reflexivity|apply Hall; reflexivity|apply Hall; reflexivity|left; discriminate|constructor| | |split; [reflexivity|cbn; lia]].
-    + left. apply (IT_plain 101 [109]); [reflexivity|apply Hall; reflexivity].
+      [right; right; reflexivity|apply Hall; reflexivity|apply Hall; reflexivity|left; discriminate|constructor| | |nf_solve].
+    + left. apply IT_core, (IC_char 101 [109]); [reflexivity|apply all_b_nbody, Hall; reflexivity].
     + repeat split; cbn; intros; try lia; try discriminate.
   - apply TS_fixed. cbn. auto 10.
-  - apply (TS_string 34 [120]); [left; reflexivity|apply Hall; reflexivity].
+  - apply (TS_string 34 [120]); [left; reflexivity|apply all_b_sbody, Hall; reflexivity].
   - apply (TS_comment []). reflexivity.
   - apply (TS_percentage [] [53] [] []); [left; reflexivity|apply Hall; reflexivity|constructor|left; discriminate|constructor].
+Qed.
+
+(*  \41 b  ws  url(a\)b)  url(a b\))  \  newline : a hex escape ends at its single whitespace, "\)" does not close a
+    url or the remnants of a bad url, and a backslash before a line break is a delimiter *)
+Example seq_ok_example_escapes :
+  seq_ok [ (TIdent, [92; 52; 49; 32; 98]); (TWhitespace, [32]);
+           (TURL, [117; 114; 108; 40; 97; 92; 41; 98; 41]);
+           (TBadURL, [117; 114; 108; 40; 97; 32; 98; 92; 41; 41]);
+           (TDelim, [92]); (TWhitespace, [10]) ].
+Proof.
+  assert (Hall : forall P l, forallb P l = true -> all_b P l).
+  { intros P l H. unfold all_b. rewrite Forall_forall. rewrite forallb_forall in H. exact H. }
+  assert (Hurl : url_name [117; 114; 108]).
+  { split; [|reflexivity]. apply IT_core, (IC_char 117 [114; 108]); [reflexivity|apply all_b_nbody, Hall; reflexivity]. }
+  assert (Hesc : esc_text [92; 41] any_next) by (apply Esc_char; [reflexivity|reflexivity|lia]).
+  cbn [seq_ok fst snd map concat app].
+  repeat split.
+  - apply TS_ident; [|nf_solve|cbn; lia|exact I].
+    apply IT_core. apply (IC_esc [92; 52; 49; 32] any_next [98]); [|reflexivity|apply NB_char; [reflexivity|constructor]].
+    apply (Esc_hex_ws [52; 49] 32); [apply Hall; reflexivity|unfold len; cbn; lia|reflexivity].
+  - apply TS_ws; [discriminate|apply Hall; reflexivity|reflexivity].
+  - apply (TS_url_unquoted [117; 114; 108] [] [97; 92; 41; 98] [] [41]);
+      [exact Hurl|constructor| |constructor|reflexivity|constructor].
+    apply UB_char; [reflexivity|]. apply (UB_esc [92; 41] any_next [98]); [exact Hesc|reflexivity|].
+    apply UB_char; [reflexivity|constructor].
+  - apply (TS_badurl_ws [117; 114; 108] [] [97] [32] [98; 92; 41] [41]);
+      [exact Hurl|constructor|apply UB_char; [reflexivity|constructor]|discriminate|apply Hall; reflexivity|discriminate
+      |discriminate|reflexivity|cbn; lia| |constructor].
+    apply RB_char; [lia|lia|]. apply (RB_esc [92; 41] any_next []); [exact Hesc|reflexivity|constructor].
+  - apply TS_delim. unfold delim_ok. do 11 right. split; [reflexivity|right; reflexivity].
+  - apply TS_ws; [discriminate|apply Hall; reflexivity|reflexivity].
 Qed.
